@@ -1,1 +1,1706 @@
-Require Import TV.Spec.StimCircuit TV.Model.CircuitOps TV.Proofs.StimCircuitProofs.
+(* Proofs about Model/CircuitOps.v.
+   Part 1: heap semantics of an effect = its value semantics, when handles do not alias (generic in the effect).
+   Part 2: abstract interpreters over effects (freshness, flatness, refinement of the reference) and their soundness.
+   Part 3: the invariants over operation histories, for the effects regenerated from src/tsim/circuit.py. *)
+From Coq Require Import ZArith List String Bool Lia Arith.
+Import ListNotations.
+Require Import TV.Spec.StimCircuit TV.Model.CircuitEffects TV.gen.Gen_circuit_effects TV.Model.CircuitOps
+               TV.Proofs.StimCircuitProofs.
+Open Scope string_scope.
+Open Scope list_scope.
+Set Default Timeout 60.
+
+(* ======================================================================================================= *)
+(* Part 1                                                                                                  *)
+(* ======================================================================================================= *)
+
+(* ---- heap ------------------------------------------------------------------------------------------------ *)
+Lemma hread_app_l : forall h e a, a < List.length h -> hread (h ++ e) a = hread h a.
+Proof. intros. unfold hread. apply app_nth1. assumption. Qed.
+
+Lemma hread_alloc : forall h c, hread (h ++ [c]) (List.length h) = c.
+Proof. intros. unfold hread. rewrite app_nth2 by lia. rewrite Nat.sub_diag. reflexivity. Qed.
+
+Lemma hwrite_length : forall h a c, List.length (hwrite h a c) = List.length h.
+Proof. induction h as [|x h IH]; intros [|a] c; cbn [hwrite List.length]; try reflexivity. rewrite IH. reflexivity. Qed.
+
+Lemma hread_hwrite_same : forall h a c, a < List.length h -> hread (hwrite h a c) a = c.
+Proof.
+  induction h as [|x h IH]; intros [|a] c H; cbn [List.length] in H; try lia; cbn [hwrite]; [reflexivity|].
+  unfold hread in *. cbn [nth]. apply IH. lia.
+Qed.
+
+Lemma hread_hwrite_other : forall h a b c, a <> b -> hread (hwrite h a c) b = hread h b.
+Proof.
+  induction h as [|x h IH]; intros [|a] [|b] c H; cbn [hwrite]; try reflexivity; try lia.
+  unfold hread in *. cbn [nth]. apply IH. lia.
+Qed.
+
+(* ---- value semantics of statements, tracking whether the operand IS the receiver's object ---------- *)
+Definition vother (cs : circ) (co : option circ) : circ := match co with Some o => o | None => cs end.
+Definition reads_self (e : oexp) (co : option circ) : bool :=
+  match e with
+  | XSelf => true
+  | XOtherT | XOtherS => match co with None => true | Some _ => false end
+  | _ => false
+  end.
+Definition vstmt (s : stmt) (ar : args) (cs : circ) (co : option circ) : circ * option circ :=
+  let o := vother cs co in
+  match s with
+  | SSetSelf e => (vexp e ar cs o, Some o)
+  | SIAdd e => (if reads_self e co then stim_iadd_self cs else stim_iadd cs (vexp e ar cs o), co)
+  | SIMul => (stim_mul (a_n ar) cs, co)
+  | SAppendText => (stim_iadd cs (a_text ar), co)
+  | SPop => (pop_at (a_idx ar) cs, co)
+  end.
+Fixpoint vstmts (l : list stmt) (ar : args) (cs : circ) (co : option circ) : circ * option circ :=
+  match l with
+  | [] => (cs, co)
+  | s :: r => let '(cs1, co1) := vstmt s ar cs co in vstmts r ar cs1 co1
+  end.
+Definition vmethod (m : meffect) (ar : args) (cs : circ) (co : option circ) : circ * option (bool * circ) :=
+  let '(cs1, co1) := vstmts (pre m) ar cs co in
+  let o1 := vother cs1 co1 in
+  match ret m with
+  | RNew e => (cs1, Some (true, fst (vstmts (post m) ar (vexp e ar cs1 o1) (Some o1))))
+  | RStim e => (cs1, Some (false, vexp e ar cs1 o1))
+  | _ => (cs1, None)
+  end.
+
+Definition stmt_ok (s : stmt) : bool := match s with SSetSelf e => fresh e | _ => true end.
+Definition method_ok (m : meffect) : bool :=
+  forallb stmt_ok (pre m) && forallb stmt_ok (post m) &&
+  match ret m with RNew e | RStim e => fresh e | _ => true end.
+
+(* the heap around one handle: receiver object at `self` holds cs; the operand object at `oth` *)
+Definition Rel (h : heap) (self oth : nat) (cs : circ) (co : option circ) : Prop :=
+  self < List.length h /\ oth < List.length h /\ hread h self = cs /\
+  match co with None => oth = self | Some o => oth <> self /\ hread h oth = o end.
+
+Lemma Rel_other : forall h self oth cs co, Rel h self oth cs co -> hread h oth = vother cs co.
+Proof. intros h self oth cs co (H1 & H2 & H3 & H4). destruct co as [o|]; cbn [vother]; [tauto|]. subst. reflexivity. Qed.
+
+Lemma eval_spec : forall e ar self oth h h' a, eval e ar self oth h = (h', a) ->
+  self < List.length h -> oth < List.length h ->
+  exists ext, h' = h ++ ext /\ a < List.length h' /\
+    hread h' a = vexp e ar (hread h self) (hread h oth) /\
+    (if fresh e then List.length h <= a else ext = [] /\ match e with XSelf => a = self | _ => a = oth end).
+Proof.
+  assert (ALLOC : forall (f : circ -> circ) e0 ar self oth,
+     (forall h h' a, eval e0 ar self oth h = (h', a) -> self < List.length h -> oth < List.length h ->
+        exists ext, h' = h ++ ext /\ a < List.length h' /\ hread h' a = vexp e0 ar (hread h self) (hread h oth) /\
+          (if fresh e0 then List.length h <= a else ext = [] /\ match e0 with XSelf => a = self | _ => a = oth end)) ->
+     forall h h' a, (let '(h1, a0) := eval e0 ar self oth h in halloc h1 (f (hread h1 a0))) = (h', a) ->
+        self < List.length h -> oth < List.length h ->
+        exists ext, h' = h ++ ext /\ a < List.length h' /\ hread h' a = f (vexp e0 ar (hread h self) (hread h oth)) /\
+          List.length h <= a).
+  { intros f e0 ar self oth IH h h' a E Hs Ho.
+    destruct (eval e0 ar self oth h) as [h1 a0] eqn:E0.
+    destruct (IH _ _ _ E0 Hs Ho) as (ext & -> & Ha0 & Hv & _).
+    unfold halloc in E. injection E as <- <-.
+    exists (ext ++ [f (hread (h ++ ext) a0)]). rewrite app_assoc. split; [reflexivity|].
+    split; [rewrite !app_length; cbn [List.length]; lia|].
+    split; [rewrite hread_alloc, Hv; reflexivity|]. rewrite app_length. lia. }
+  induction e as [| | | | |e0 IH|e0 IH|e0 IH|e0 IH|e0 IH|names e0 IH]; intros ar self oth h h' a E Hs Ho;
+    cbn [eval vexp fresh] in *.
+  - injection E as <- <-. exists []. rewrite app_nil_r. auto.
+  - injection E as <- <-. exists []. rewrite app_nil_r. auto.
+  - injection E as <- <-. exists []. rewrite app_nil_r. auto.
+  - unfold halloc in E. injection E as <- <-. exists [a_text ar]. rewrite app_length, hread_alloc. cbn [List.length]. repeat split; lia.
+  - unfold halloc in E. injection E as <- <-. exists [[]]. rewrite app_length, hread_alloc. cbn [List.length]. repeat split; lia.
+  - destruct (ALLOC (fun c => c) e0 ar self oth (fun h h' a => IH ar self oth h h' a) _ _ _ E Hs Ho) as (ext & ? & ? & ? & ?). exists ext. auto.
+  - destruct (ALLOC flattened e0 ar self oth (fun h h' a => IH ar self oth h h' a) _ _ _ E Hs Ho) as (ext & ? & ? & ? & ?). exists ext. auto.
+  - destruct (ALLOC (stim_mul (a_n ar)) e0 ar self oth (fun h h' a => IH ar self oth h h' a) _ _ _ E Hs Ho) as (ext & ? & ? & ? & ?). exists ext. auto.
+  - destruct (ALLOC (stim_slice (a_start ar) (a_stop ar) (a_step ar)) e0 ar self oth (fun h h' a => IH ar self oth h h' a) _ _ _ E Hs Ho) as (ext & ? & ? & ? & ?). exists ext. auto.
+  - destruct (ALLOC stim_without_noise e0 ar self oth (fun h h' a => IH ar self oth h h' a) _ _ _ E Hs Ho) as (ext & ? & ? & ? & ?). exists ext. auto.
+  - destruct (ALLOC (stim_filtered names) e0 ar self oth (fun h h' a => IH ar self oth h h' a) _ _ _ E Hs Ho) as (ext & ? & ? & ? & ?). exists ext. auto.
+Qed.
+
+(* what one statement does to the heap *)
+Definition Frame (h h' : heap) (self : nat) : Prop :=
+  List.length h <= List.length h' /\ forall b, b < List.length h -> b <> self -> hread h' b = hread h b.
+
+Lemma exec_stmt_spec : forall s ar self oth h h' self' cs co,
+  exec_stmt s ar self oth h = (h', self') -> stmt_ok s = true -> Rel h self oth cs co ->
+  Rel h' self' oth (fst (vstmt s ar cs co)) (snd (vstmt s ar cs co)) /\ Frame h h' self /\
+  (self' = self \/ List.length h <= self').
+Proof.
+  intros s ar self oth h h' self' cs co E OK R.
+  pose proof (Rel_other _ _ _ _ _ R) as Ho.
+  destruct R as (Hs & Hoth & Hcs & Hco).
+  destruct s as [e|e| | |]; cbn [exec_stmt vstmt fst snd stmt_ok] in *.
+  - (* SSetSelf e, e fresh *)
+    destruct (eval_spec _ _ _ _ _ _ _ E Hs Hoth) as (ext & -> & Ha & Hv & Hf). rewrite OK in Hf.
+    split; [|split].
+    + unfold Rel. rewrite app_length. split; [rewrite app_length in Ha; lia|]. split; [lia|].
+      split; [rewrite Hv, Hcs, Ho; reflexivity|]. split; [lia|].
+      rewrite hread_app_l by lia. exact Ho.
+    + unfold Frame. rewrite app_length. split; [lia|]. intros b Hb _. apply hread_app_l. exact Hb.
+    + right. exact Hf.
+  - (* SIAdd e *)
+    destruct (eval e ar self oth h) as [h1 a] eqn:E1. injection E as <- <-.
+    destruct (eval_spec _ _ _ _ _ _ _ E1 Hs Hoth) as (ext & -> & Ha & Hv & Hf).
+    assert (Hself1 : hread (h ++ ext) self = cs) by (rewrite hread_app_l by lia; exact Hcs).
+    assert (AE : Nat.eqb a self = reads_self e co).
+    { destruct (fresh e) eqn:Fr.
+      - assert (reads_self e co = false) as -> by (destruct e; cbn in Fr |- *; try discriminate; reflexivity).
+        apply Nat.eqb_neq. lia.
+      - destruct Hf as [-> Hf]. destruct e; cbn in Fr; try discriminate; cbn [reads_self]; subst a.
+        + apply Nat.eqb_refl.
+        + destruct co as [o|]; [apply Nat.eqb_neq; tauto|subst; apply Nat.eqb_refl].
+        + destruct co as [o|]; [apply Nat.eqb_neq; tauto|subst; apply Nat.eqb_refl]. }
+    rewrite AE, Hself1, Hv, Hcs, Ho.
+    split; [|split].
+    + unfold Rel. rewrite hwrite_length, app_length. repeat split; try lia.
+      * apply hread_hwrite_same. rewrite app_length. lia.
+      * destruct co as [o|]; [|exact Hco]. destruct Hco as [Hne Hro]. split; [exact Hne|].
+        rewrite hread_hwrite_other by auto. rewrite hread_app_l by lia. exact Hro.
+    + unfold Frame. rewrite hwrite_length, app_length. split; [lia|]. intros b Hb Hne.
+      rewrite hread_hwrite_other by auto. apply hread_app_l. exact Hb.
+    + left. reflexivity.
+  - injection E as <- <-. rewrite Hcs. split; [|split].
+    + unfold Rel. rewrite hwrite_length. repeat split; try lia.
+      * apply hread_hwrite_same. exact Hs.
+      * destruct co as [o|]; [|exact Hco]. destruct Hco as [Hne Hro]. split; [exact Hne|]. rewrite hread_hwrite_other by auto. exact Hro.
+    + unfold Frame. rewrite hwrite_length. split; [lia|]. intros b Hb Hne. apply hread_hwrite_other. auto.
+    + left. reflexivity.
+  - injection E as <- <-. rewrite Hcs. split; [|split].
+    + unfold Rel. rewrite hwrite_length. repeat split; try lia.
+      * apply hread_hwrite_same. exact Hs.
+      * destruct co as [o|]; [|exact Hco]. destruct Hco as [Hne Hro]. split; [exact Hne|]. rewrite hread_hwrite_other by auto. exact Hro.
+    + unfold Frame. rewrite hwrite_length. split; [lia|]. intros b Hb Hne. apply hread_hwrite_other. auto.
+    + left. reflexivity.
+  - injection E as <- <-. rewrite Hcs. split; [|split].
+    + unfold Rel. rewrite hwrite_length. repeat split; try lia.
+      * apply hread_hwrite_same. exact Hs.
+      * destruct co as [o|]; [|exact Hco]. destruct Hco as [Hne Hro]. split; [exact Hne|]. rewrite hread_hwrite_other by auto. exact Hro.
+    + unfold Frame. rewrite hwrite_length. split; [lia|]. intros b Hb Hne. apply hread_hwrite_other. auto.
+    + left. reflexivity.
+Qed.
+
+Lemma exec_stmts_spec : forall l ar self oth h h' self' cs co,
+  exec_stmts l ar self oth h = (h', self') -> forallb stmt_ok l = true -> Rel h self oth cs co ->
+  Rel h' self' oth (fst (vstmts l ar cs co)) (snd (vstmts l ar cs co)) /\ Frame h h' self /\
+  (self' = self \/ List.length h <= self').
+Proof.
+  induction l as [|s l IH]; intros ar self oth h h' self' cs co E OK R.
+  - cbn in E. injection E as <- <-. cbn. split; [exact R|]. split; [|left; reflexivity].
+    unfold Frame. split; [lia|]. auto.
+  - cbn [exec_stmts] in E. destruct (exec_stmt s ar self oth h) as [h1 s1] eqn:E1.
+    cbn [forallb] in OK. apply andb_true_iff in OK as [OK1 OK2].
+    destruct (exec_stmt_spec _ _ _ _ _ _ _ _ _ E1 OK1 R) as (R1 & [L1 F1] & S1).
+    cbn [vstmts]. destruct (vstmt s ar cs co) as [cs1 co1] eqn:V. cbn [fst snd] in R1.
+    destruct (IH _ _ _ _ _ _ _ _ E OK2 R1) as (R2 & [L2 F2] & S2).
+    split; [exact R2|]. split.
+    + unfold Frame. split; [lia|]. intros b Hb Hne.
+      rewrite F2; [apply F1; assumption|lia|]. destruct S1 as [->|S1]; [exact Hne|lia].
+    + destruct S2 as [->|S2]; [exact S1|]. right. lia.
+Qed.
+
+Inductive VOut := VNone | VNewT (c : circ) | VNewS (c : circ).
+Definition vout (m : meffect) (ar : args) (cs : circ) (co : option circ) : VOut :=
+  match snd (vmethod m ar cs co) with
+  | None => VNone | Some (true, c) => VNewT c | Some (false, c) => VNewS c
+  end.
+
+Lemma run_method_spec : forall m ar self oth h h' self' out cs co,
+  run_method m ar self oth h = (h', self', out) -> method_ok m = true -> Rel h self oth cs co ->
+  Frame h h' self /\ (self' = self \/ List.length h <= self') /\ self' < List.length h' /\
+  hread h' self' = fst (vmethod m ar cs co) /\
+  match out, vout m ar cs co with
+  | ONone, VNone => True
+  | ONewT b, VNewT c | ONewS b, VNewS c => List.length h <= b /\ b < List.length h' /\ b <> self' /\ hread h' b = c
+  | _, _ => False
+  end.
+Proof.
+  intros m ar self oth h h' self' out cs co E OK R.
+  unfold method_ok in OK. apply andb_true_iff in OK as [OK OKr]. apply andb_true_iff in OK as [OKpre OKpost].
+  unfold run_method in E. destruct (exec_stmts (pre m) ar self oth h) as [h1 s1] eqn:E1.
+  destruct (exec_stmts_spec _ _ _ _ _ _ _ _ _ E1 OKpre R) as (R1 & F1 & S1).
+  unfold vout, vmethod. destruct (vstmts (pre m) ar cs co) as [cs1 co1] eqn:V1. cbn [fst snd] in R1.
+  pose proof (Rel_other _ _ _ _ _ R1) as Ho1. destruct R1 as (Hs1 & Hoth1 & Hcs1 & Hco1).
+  destruct (ret m) as [| | |e|e] eqn:Rt.
+  1-3: injection E as <- <- <-; cbn [fst snd]; repeat split; try tauto; try (destruct F1; assumption).
+  - destruct (eval e ar s1 oth h1) as [h2 a] eqn:E2.
+    destruct (exec_stmts (post m) ar a oth h2) as [h3 a3] eqn:E3. injection E as <- <- <-.
+    destruct (eval_spec _ _ _ _ _ _ _ E2 Hs1 Hoth1) as (ext & -> & Ha & Hv & Hf). rewrite OKr in Hf.
+    assert (R2 : Rel (h1 ++ ext) a oth (vexp e ar cs1 (vother cs1 co1)) (Some (vother cs1 co1))).
+    { unfold Rel. rewrite app_length in *. repeat split; try lia.
+      - rewrite Hv, Hcs1, Ho1. reflexivity.
+      - rewrite hread_app_l by lia. exact Ho1. }
+    destruct (exec_stmts_spec _ _ _ _ _ _ _ _ _ E3 OKpost R2) as (R3 & [L3 F3] & S3).
+    destruct R3 as (Ha3 & _ & Hv3 & _). destruct F1 as [L1 F1]. rewrite app_length in *.
+    cbn [fst snd]. split; [|split; [|split; [|split]]].
+    + unfold Frame. split; [lia|]. intros b Hb Hne. rewrite F3; [|try rewrite app_length; lia|lia].
+      rewrite hread_app_l by lia. apply F1; assumption.
+    + exact S1.
+    + lia.
+    + rewrite F3; [|try rewrite app_length; lia|lia]. rewrite hread_app_l by lia. exact Hcs1.
+    + repeat split; try lia. exact Hv3.
+  - destruct (eval e ar s1 oth h1) as [h2 a] eqn:E2. injection E as <- <- <-.
+    destruct (eval_spec _ _ _ _ _ _ _ E2 Hs1 Hoth1) as (ext & -> & Ha & Hv & Hf). rewrite OKr in Hf.
+    destruct F1 as [L1 F1]. rewrite app_length in *.
+    cbn [fst snd]. split; [|split; [|split; [|split]]].
+    + unfold Frame. rewrite app_length. split; [lia|]. intros b Hb Hne. rewrite hread_app_l by lia. apply F1; assumption.
+    + exact S1.
+    + lia.
+    + rewrite hread_app_l by lia. exact Hcs1.
+    + repeat split; try lia. rewrite Hv, Hcs1, Ho1. reflexivity.
+Qed.
+
+(* ---- lists of handles ----------------------------------------------------------------------------------- *)
+Lemma set_nth_length : forall {A} (l : list A) k x, List.length (set_nth l k x) = List.length l.
+Proof. induction l as [|y l IH]; intros [|k] x; cbn [set_nth List.length]; try reflexivity. rewrite IH. reflexivity. Qed.
+
+Lemma nth_error_set_nth_same : forall {A} (l : list A) k x, k < List.length l -> nth_error (set_nth l k x) k = Some x.
+Proof. induction l as [|y l IH]; intros [|k] x H; cbn [List.length] in H; try lia; cbn [set_nth nth_error]; [reflexivity|]. apply IH. lia. Qed.
+
+Lemma nth_error_set_nth_other : forall {A} (l : list A) k k' x, k' <> k -> nth_error (set_nth l k x) k' = nth_error l k'.
+Proof. induction l as [|y l IH]; intros [|k] [|k'] x H; cbn [set_nth nth_error]; try reflexivity; try lia. apply IH. lia. Qed.
+
+Lemma In_set_nth : forall {A} (l : list A) k x y, In y (set_nth l k x) -> y = x \/ In y l.
+Proof.
+  induction l as [|z l IH]; intros [|k] x y H; cbn [set_nth In] in *; try tauto.
+  - destruct H as [H|H]; auto.
+  - destruct H as [H|H]; auto. destruct (IH _ _ _ H); auto.
+Qed.
+
+Lemma set_nth_same : forall {A} (l : list A) k a, nth_error l k = Some a -> set_nth l k a = l.
+Proof. induction l as [|z l IH]; intros [|k] a H; cbn [set_nth nth_error] in *; try discriminate; [injection H as ->; reflexivity|]. rewrite IH by exact H. reflexivity. Qed.
+
+Lemma nth_set_nth_same : forall {A} (l : list A) k x d, k < List.length l -> nth k (set_nth l k x) d = x.
+Proof. intros. apply nth_error_nth. apply nth_error_set_nth_same. assumption. Qed.
+
+Lemma nth_set_nth_other : forall {A} (l : list A) k k' x d, k' <> k -> nth k' (set_nth l k x) d = nth k' l d.
+Proof.
+  induction l as [|y l IH]; intros [|k] [|k'] x d H; cbn [set_nth nth]; try reflexivity; try lia. apply IH. lia.
+Qed.
+
+Lemma NoDup_insert : forall {A} (l1 l2 : list A) b, NoDup (l1 ++ l2) -> ~ In b (l1 ++ l2) -> NoDup (l1 ++ b :: l2).
+Proof.
+  induction l1 as [|x l1 IH]; intros l2 b H Hb; cbn [app] in *.
+  - constructor; assumption.
+  - inversion H as [|? ? Hx Hr]; subst. constructor.
+    + intro Hin. apply in_app_or in Hin as [Hin|[Hin|Hin]].
+      * apply Hx. apply in_or_app. auto.
+      * subst. apply Hb. left. reflexivity.
+      * apply Hx. apply in_or_app. auto.
+    + apply IH; [exact Hr|]. intro Hin. apply Hb. right. exact Hin.
+Qed.
+
+Lemma NoDup_update : forall (tvl svl : list nat) v a a' n,
+  NoDup (tvl ++ svl) -> (forall x, In x (tvl ++ svl) -> x < n) -> nth_error tvl v = Some a ->
+  (a' = a \/ n <= a') -> NoDup (set_nth tvl v a' ++ svl).
+Proof.
+  intros tvl svl v a a' n ND Hlt Hv [->|Hf].
+  - rewrite (set_nth_same _ _ _ Hv). exact ND.
+  - revert v ND Hlt Hv. induction tvl as [|x tvl IH]; intros [|v] ND Hlt Hv; cbn [nth_error] in Hv; try discriminate.
+    + injection Hv as ->. cbn [set_nth app] in *. inversion ND as [|? ? Hx Hr]; subst. constructor; [|exact Hr].
+      intro Hin. specialize (Hlt a' (or_intror Hin)). lia.
+    + cbn [set_nth app] in *. inversion ND as [|? ? Hx Hr]; subst. constructor.
+      * intro Hin. apply in_app_or in Hin as [Hin|Hin].
+        -- apply In_set_nth in Hin as [->|Hin]; [specialize (Hlt a' (or_introl eq_refl)); lia|]. apply Hx. apply in_or_app. auto.
+        -- apply Hx. apply in_or_app. auto.
+      * apply (IH v Hr); [|exact Hv]. intros y Hy. apply Hlt. right. exact Hy.
+Qed.
+
+Definition allv (s : st) : list nat := tv s ++ sv s.
+Definition WF (s : st) : Prop :=
+  (forall a, In a (allv s) -> a < List.length (heap_of s)) /\ NoDup (allv s).
+
+Lemma WF_tv_distinct : forall s v v' a a', WF s -> nth_error (tv s) v = Some a -> nth_error (tv s) v' = Some a' -> v <> v' -> a <> a'.
+Proof.
+  intros s v v' a a' [_ ND] H1 H2 Hne Heq. subst a'.
+  assert (L1 : v < List.length (tv s)) by (apply nth_error_Some; congruence).
+  assert (L2 : v' < List.length (tv s)) by (apply nth_error_Some; congruence).
+  unfold allv in ND. rewrite NoDup_nth_error in ND. apply Hne. apply ND.
+  - rewrite app_length. lia.
+  - rewrite !nth_error_app1 by assumption. congruence.
+Qed.
+
+Lemma WF_tv_sv_distinct : forall s v w a b, WF s -> nth_error (tv s) v = Some a -> nth_error (sv s) w = Some b -> a <> b.
+Proof.
+  intros s v w a b [_ ND] H1 H2 Heq. subst b.
+  assert (L1 : v < List.length (tv s)) by (apply nth_error_Some; congruence).
+  assert (L2 : w < List.length (sv s)) by (apply nth_error_Some; congruence).
+  unfold allv in ND. rewrite NoDup_nth_error in ND.
+  assert (v = List.length (tv s) + w); [|lia]. apply ND.
+  - rewrite app_length. lia.
+  - rewrite nth_error_app1 by assumption. rewrite nth_error_app2 by lia.
+    replace (List.length (tv s) + w - List.length (tv s)) with w by lia. congruence.
+Qed.
+
+Lemma WF_sv_distinct : forall s w w' a a', WF s -> nth_error (sv s) w = Some a -> nth_error (sv s) w' = Some a' -> w <> w' -> a <> a'.
+Proof.
+  intros s w w' a a' [_ ND] H1 H2 Hne Heq. subst a'.
+  assert (L1 : w < List.length (sv s)) by (apply nth_error_Some; congruence).
+  assert (L2 : w' < List.length (sv s)) by (apply nth_error_Some; congruence).
+  unfold allv in ND. rewrite NoDup_nth_error in ND.
+  assert (List.length (tv s) + w = List.length (tv s) + w'); [|lia]. apply ND.
+  - rewrite app_length. lia.
+  - rewrite !nth_error_app2 by lia.
+    replace (List.length (tv s) + w - List.length (tv s)) with w by lia.
+    replace (List.length (tv s) + w' - List.length (tv s)) with w' by lia. congruence.
+Qed.
+
+Lemma tval_nth : forall s v a, nth_error (tv s) v = Some a -> tval s v = hread (heap_of s) a.
+Proof. intros s v a H. unfold tval. rewrite H. reflexivity. Qed.
+Lemma sval_nth : forall s w a, nth_error (sv s) w = Some a -> sval s w = hread (heap_of s) a.
+Proof. intros s w a H. unfold sval. rewrite H. reflexivity. Qed.
+
+(* the operand as the value semantics sees it: None = the very object of the receiver *)
+Definition operand_val (s : st) (a : nat) (oth : option nat) : option circ :=
+  match oth with
+  | None => None
+  | Some b => if Nat.eqb b a then None else Some (hread (heap_of s) b)
+  end.
+
+Lemma call_spec : forall m ar v oth s a,
+  WF s -> nth_error (tv s) v = Some a -> method_ok m = true ->
+  match oth with Some b => In b (allv s) | None => True end ->
+  let cs := hread (heap_of s) a in
+  let co := operand_val s a oth in
+  let s' := call m ar v oth s in
+  WF s' /\
+  tval s' v = fst (vmethod m ar cs co) /\
+  (forall v', v' <> v -> v' < List.length (tv s) -> tval s' v' = tval s v') /\
+  (forall w, w < List.length (sv s) -> sval s' w = sval s w) /\
+  match vout m ar cs co with
+  | VNone => List.length (tv s') = List.length (tv s) /\ List.length (sv s') = List.length (sv s)
+  | VNewT c => List.length (tv s') = S (List.length (tv s)) /\ List.length (sv s') = List.length (sv s) /\
+               tval s' (List.length (tv s)) = c
+  | VNewS c => List.length (tv s') = List.length (tv s) /\ List.length (sv s') = S (List.length (sv s)) /\
+               sval s' (List.length (sv s)) = c
+  end.
+Proof.
+  intros m ar v oth s a W Hv OK Hoth cs co s'.
+  assert (Lv : v < List.length (tv s)) by (apply nth_error_Some; congruence).
+  assert (Ha : a < List.length (heap_of s)).
+  { apply (proj1 W). unfold allv. apply in_or_app. left. eapply nth_error_In. exact Hv. }
+  set (o := match oth with Some b => b | None => a end).
+  assert (Ho : o < List.length (heap_of s)).
+  { unfold o. destruct oth as [b|]; [apply (proj1 W); exact Hoth|exact Ha]. }
+  assert (R : Rel (heap_of s) a o cs co).
+  { unfold Rel. repeat split; try assumption. unfold co, operand_val, o. destruct oth as [b|]; [|reflexivity].
+    destruct (Nat.eqb b a) eqn:E; [apply Nat.eqb_eq in E; exact E|]. apply Nat.eqb_neq in E. split; [exact E|reflexivity]. }
+  unfold s', call. rewrite Hv. fold o.
+  destruct (run_method m ar a o (heap_of s)) as [[h' a'] out] eqn:E.
+  destruct (run_method_spec _ _ _ _ _ _ _ _ _ _ E OK R) as ([L F] & Sa & La' & Hva' & Hout).
+  set (tv' := set_nth (tv s) v a').
+  assert (Htv'v : nth_error tv' v = Some a') by (apply nth_error_set_nth_same; exact Lv).
+  assert (Hothers : forall v', v' <> v -> v' < List.length (tv s) ->
+            exists a'', nth_error tv' v' = Some a'' /\ nth_error (tv s) v' = Some a'' /\ hread h' a'' = hread (heap_of s) a'').
+  { intros v' Hne Lv'. destruct (nth_error (tv s) v') as [a''|] eqn:E'; [|apply nth_error_None in E'; lia].
+    exists a''. unfold tv'. rewrite nth_error_set_nth_other by exact Hne. repeat split; try assumption.
+    apply F.
+    - apply (proj1 W). unfold allv. apply in_or_app. left. eapply nth_error_In. exact E'.
+    - eapply WF_tv_distinct; eauto. }
+  assert (Hsv : forall w, w < List.length (sv s) ->
+            exists b, nth_error (sv s) w = Some b /\ hread h' b = hread (heap_of s) b).
+  { intros w Lw. destruct (nth_error (sv s) w) as [b|] eqn:E'; [|apply nth_error_None in E'; lia].
+    exists b. split; [reflexivity|]. apply F.
+    - apply (proj1 W). unfold allv. apply in_or_app. right. eapply nth_error_In. exact E'.
+    - intro Heq. eapply WF_tv_sv_distinct; eauto. }
+  assert (NDbase : NoDup (tv' ++ sv s)).
+  { unfold tv'. eapply NoDup_update; [exact (proj2 W)|exact (proj1 W)|exact Hv|exact Sa]. }
+  assert (LTbase : forall x, In x (tv' ++ sv s) -> x < List.length h').
+  { intros x Hx. apply in_app_or in Hx as [Hx|Hx].
+    - unfold tv' in Hx. apply In_set_nth in Hx as [->|Hx]; [exact La'|].
+      assert (x < List.length (heap_of s)) by (apply (proj1 W); unfold allv; apply in_or_app; auto). lia.
+    - assert (x < List.length (heap_of s)) by (apply (proj1 W); unfold allv; apply in_or_app; auto). lia. }
+  assert (FRESH : forall b, List.length (heap_of s) <= b -> b <> a' -> ~ In b (tv' ++ sv s)).
+  { intros b Lb Hne Hin. apply in_app_or in Hin as [Hin|Hin].
+    - unfold tv' in Hin. apply In_set_nth in Hin as [->|Hin]; [congruence|].
+      assert (b < List.length (heap_of s)) by (apply (proj1 W); unfold allv; apply in_or_app; auto). lia.
+    - assert (b < List.length (heap_of s)) by (apply (proj1 W); unfold allv; apply in_or_app; auto). lia. }
+  destruct out as [|b|b]; destruct (vout m ar cs co) as [|c|c] eqn:VO; try contradiction.
+  - (* no new object *)
+    split; [split; [exact LTbase|exact NDbase]|].
+    split; [rewrite (tval_nth (mkSt h' tv' (sv s)) _ _ Htv'v); exact Hva'|].
+    split; [|split].
+    + intros v' Hne Lv'. destruct (Hothers v' Hne Lv') as (a'' & H1 & H2 & H3).
+      rewrite (tval_nth (mkSt h' tv' (sv s)) _ _ H1), (tval_nth _ _ _ H2). exact H3.
+    + intros w Lw. destruct (Hsv w Lw) as (b & H1 & H2).
+      rewrite (sval_nth (mkSt h' tv' (sv s)) _ _ H1), (sval_nth _ _ _ H1). exact H2.
+    + cbn [tv sv]. unfold tv'. rewrite set_nth_length. auto.
+  - (* a new tsim Circuit *)
+    destruct Hout as (Lb & Lb' & Hne & Hvb).
+    assert (Ltv' : List.length tv' = List.length (tv s)) by (unfold tv'; apply set_nth_length).
+    split.
+    { split; unfold allv; cbn [tv sv heap_of].
+      - intros x Hx. rewrite <- app_assoc in Hx. cbn [app] in Hx.
+        apply in_app_or in Hx as [Hx|[->|Hx]]; [apply LTbase; apply in_or_app; auto|exact Lb'|apply LTbase; apply in_or_app; auto].
+      - rewrite <- app_assoc. cbn [app]. apply NoDup_insert; [exact NDbase|]. apply FRESH; assumption. }
+    split.
+    { unfold tval. cbn [tv heap_of]. rewrite nth_error_app1 by (rewrite Ltv'; exact Lv). rewrite Htv'v. exact Hva'. }
+    split; [|split].
+    + intros v' Hne' Lv'. destruct (Hothers v' Hne' Lv') as (a'' & H1 & H2 & H3).
+      unfold tval at 1. cbn [tv heap_of]. rewrite nth_error_app1 by (rewrite Ltv'; exact Lv'). rewrite H1.
+      rewrite (tval_nth _ _ _ H2). exact H3.
+    + intros w Lw. destruct (Hsv w Lw) as (b0 & H1 & H2).
+      rewrite (sval_nth (mkSt h' (tv' ++ [b]) (sv s)) _ _ H1), (sval_nth _ _ _ H1). exact H2.
+    + cbn [tv sv]. rewrite app_length, Ltv'. cbn [List.length]. split; [lia|]. split; [reflexivity|].
+      unfold tval. cbn [tv heap_of]. rewrite nth_error_app2 by lia. rewrite Ltv', Nat.sub_diag. cbn [nth_error]. exact Hvb.
+  - (* a new stim object handed to the user *)
+    destruct Hout as (Lb & Lb' & Hne & Hvb).
+    assert (Ltv' : List.length tv' = List.length (tv s)) by (unfold tv'; apply set_nth_length).
+    split.
+    { split; unfold allv; cbn [tv sv heap_of].
+      - intros x Hx. rewrite app_assoc in Hx.
+        apply in_app_or in Hx as [Hx|[->|[]]]; [apply LTbase; exact Hx|exact Lb'].
+      - rewrite app_assoc. apply (NoDup_insert (tv' ++ sv s) [] b); rewrite ?app_nil_r; [exact NDbase|]. apply FRESH; assumption. }
+    split.
+    { rewrite (tval_nth (mkSt h' tv' (sv s ++ [b])) _ _ Htv'v). exact Hva'. }
+    split; [|split].
+    + intros v' Hne' Lv'. destruct (Hothers v' Hne' Lv') as (a'' & H1 & H2 & H3).
+      rewrite (tval_nth (mkSt h' tv' (sv s ++ [b])) _ _ H1), (tval_nth _ _ _ H2). exact H3.
+    + intros w Lw. destruct (Hsv w Lw) as (b0 & H1 & H2).
+      unfold sval at 1. cbn [sv heap_of]. rewrite nth_error_app1 by exact Lw. rewrite H1.
+      rewrite (sval_nth _ _ _ H1). exact H2.
+    + cbn [tv sv]. rewrite app_length, Ltv'. cbn [List.length]. split; [reflexivity|]. split; [lia|].
+      unfold sval. cbn [sv heap_of]. rewrite nth_error_app2 by lia. rewrite Nat.sub_diag. cbn [nth_error]. exact Hvb.
+Qed.
+
+(* ======================================================================================================= *)
+(* Part 2: more facts about Stim's operations, then the abstract interpreters                              *)
+(* ======================================================================================================= *)
+
+Lemma is_flat_stim_iadd_self : forall c, is_flat c = true -> is_flat (stim_iadd_self c) = true.
+Proof.
+  intros c H. unfold stim_iadd_self.
+  assert (D : is_flat (c ++ c) = true) by (rewrite is_flat_app, H; reflexivity).
+  destruct c as [|x c0]; [reflexivity|]. destruct x as [i|n b]; [|exact D].
+  destruct (rev (It i :: c0)) as [|y r] eqn:E; [exact D|]. destruct y as [j|m b']; [|exact D].
+  destruct (can_fuse j i); [|exact D].
+  apply rev_cons_inv in E. rewrite E in H. rewrite is_flat_app in H. apply andb_true_iff in H as [H1 _].
+  assert (F : is_flat (rev r ++ [It (merge j i)]) = true) by (rewrite is_flat_app, H1; reflexivity).
+  rewrite is_flat_app, F. cbn [andb].
+  destruct (rev r ++ [It (merge j i)]) as [|z t] eqn:E2; [reflexivity|].
+  cbn [tl]. cbn [is_flat forallb] in F. apply andb_true_iff in F as [_ F]. exact F.
+Qed.
+
+Lemma is_flat_pop_at : forall i c, is_flat c = true -> is_flat (pop_at i c) = true.
+Proof. intros i c H. unfold pop_at. destruct (norm_index _ _); [apply is_flat_remove_nth|]; exact H. Qed.
+
+Lemma is_flat_stim_slice : forall a b c x, is_flat x = true -> is_flat (stim_slice a b c x) = true.
+Proof. intros. unfold stim_slice. apply is_flat_select. assumption. Qed.
+
+(* tsim's filter loop on a REPEAT-free circuit *)
+Lemma stim_filtered_flat_acc : forall names l acc Y,
+  fuse (flatten0 (fold_left (fun acc y => if dropped names y then acc else csnoc acc y) (embed l) acc) ++ Y)
+  = fuse (flatten0 acc ++ keepl names l ++ Y).
+Proof.
+  induction l as [|i l IH]; intros acc Y; [reflexivity|].
+  cbn [embed map fold_left]. fold (embed l). rewrite IH.
+  cbn [dropped keepl filter]. fold (keepl names l).
+  destruct (mem (iname i) names); cbn [negb].
+  - reflexivity.
+  - rewrite csnoc_fuse. cbn [flat_item app]. reflexivity.
+Qed.
+
+Lemma stim_filtered_flat : forall names l, fuse (flatten0 (stim_filtered names (embed l))) = fuse (keepl names l).
+Proof.
+  intros names l. unfold stim_filtered. pose proof (stim_filtered_flat_acc names l [] []) as H.
+  rewrite !app_nil_r in H. exact H.
+Qed.
+
+Lemma is_flat_stim_filtered : forall names l, is_flat (stim_filtered names (embed l)) = true.
+Proof.
+  intros names l. unfold stim_filtered.
+  assert (G : forall acc, is_flat acc = true ->
+     is_flat (fold_left (fun acc y => if dropped names y then acc else csnoc acc y) (embed l) acc) = true).
+  { induction l as [|i l IH]; intros acc Ha; [exact Ha|].
+    cbn [embed map fold_left]. fold (embed l). apply IH.
+    destruct (dropped names (It i)); [exact Ha|]. apply is_flat_csnoc; [exact Ha|reflexivity]. }
+  apply G. reflexivity.
+Qed.
+
+(* the reference operations commute with flattening *)
+Lemma flat_map_rep_app : forall {A B} (f : A -> list B) n l, flat_map f (rep_app n l) = rep_app n (flat_map f l).
+Proof. intros A B f n l. induction n as [|n IH]; [reflexivity|]. cbn [rep_app]. rewrite flat_map_app, IH. reflexivity. Qed.
+
+Lemma flatten0_ref_without_noise : forall c, flatten0 (ref_without_noise c) = wnl (flatten0 c).
+Proof.
+  assert (I : forall x, flat_map flat_item (rwn_item x) = wnl (flat_item x)).
+  { induction x as [i|n b IH] using item_ind2.
+    - cbn [rwn_item flat_item wnl flat_map]. destruct (wn_instr i); reflexivity.
+    - cbn [rwn_item flat_item flat_map]. rewrite app_nil_r. unfold wnl. rewrite flat_map_rep_app. f_equal.
+      induction b as [|y r IHr]; [reflexivity|].
+      inversion IH as [|? ? Py Pr]; subst. cbn [flat_map]. rewrite !flat_map_app. fold (wnl (flat_item y)).
+      rewrite <- Py. rewrite (IHr Pr). reflexivity. }
+  induction c as [|x c IH]; [reflexivity|].
+  unfold ref_without_noise, flatten0 in *. cbn [flat_map]. rewrite flat_map_app, IH, I. unfold wnl. rewrite flat_map_app. reflexivity.
+Qed.
+
+Lemma flatten0_ref_drop : forall names c, flatten0 (ref_drop names c) = keepl names (flatten0 c).
+Proof.
+  intro names.
+  assert (K : forall n l, keepl names (rep_app n l) = rep_app n (keepl names l)).
+  { intros n l. induction n as [|n IH]; [reflexivity|]. cbn [rep_app]. rewrite keepl_app, IH. reflexivity. }
+  assert (I : forall x, flat_map flat_item (rd_item names x) = keepl names (flat_item x)).
+  { induction x as [i|n b IH] using item_ind2.
+    - cbn [rd_item flat_item keepl filter]. destruct (mem (iname i) names); reflexivity.
+    - cbn [rd_item flat_item flat_map]. rewrite app_nil_r. rewrite K. f_equal.
+      induction b as [|y r IHr]; [reflexivity|].
+      inversion IH as [|? ? Py Pr]; subst. cbn [flat_map]. rewrite flat_map_app, keepl_app.
+      rewrite <- Py. rewrite (IHr Pr). reflexivity. }
+  induction c as [|x c IH]; [reflexivity|].
+  unfold ref_drop, flatten0 in *. cbn [flat_map]. rewrite flat_map_app, IH, I, keepl_app. reflexivity.
+Qed.
+
+(* SHIFT_COORDS-freeness of what the operations produce *)
+Definition ns_l (l : list instr) : bool := forallb (fun i => negb (is_shift i)) l.
+
+Lemma noshift_rep : forall n c, noshift c = true -> noshift [Rep n c] = true.
+Proof.
+  intros n c H. unfold noshift, flatten0 in *. cbn [flat_map flat_item]. rewrite app_nil_r.
+  destruct n as [|n]; [reflexivity|]. rewrite forallb_rep_app. exact H.
+Qed.
+
+Lemma ns_l_wnl : forall l, ns_l l = true -> ns_l (wnl l) = true.
+Proof.
+  induction l as [|i l IH]; intro H; [reflexivity|].
+  cbn [ns_l forallb] in H. apply andb_true_iff in H as [H1 H2].
+  change (wnl (i :: l)) with ((match wn_instr i with Some x => [x] | None => [] end) ++ wnl l).
+  unfold ns_l. rewrite forallb_app. fold (ns_l (wnl l)). rewrite (IH H2), andb_true_r.
+  unfold wn_instr. destruct (mem (iname i) meas_names).
+  - destruct (mem (iname i) herald_names); cbn [forallb]; [reflexivity|].
+    unfold is_shift in *. cbn [iname]. rewrite H1. reflexivity.
+  - destruct (mem (iname i) noisy_names); cbn [forallb]; [reflexivity|]. rewrite H1. reflexivity.
+Qed.
+
+Lemma ns_l_keepl : forall names l, ns_l l = true -> ns_l (keepl names l) = true.
+Proof.
+  intros names l H. unfold ns_l, keepl in *. rewrite forallb_forall in *. intros x Hx. apply filter_In in Hx as [Hx _]. apply H. exact Hx.
+Qed.
+
+Lemma noshift_ref_without_noise : forall c, noshift c = true -> noshift (ref_without_noise c) = true.
+Proof. intros c H. unfold noshift. rewrite flatten0_ref_without_noise. apply ns_l_wnl. exact H. Qed.
+Lemma noshift_ref_drop : forall names c, noshift c = true -> noshift (ref_drop names c) = true.
+Proof. intros names c H. unfold noshift. rewrite flatten0_ref_drop. apply ns_l_keepl. exact H. Qed.
+
+Lemma noshift_flat_items : forall c, is_flat c = true ->
+  noshift c = forallb (fun x => match x with It i => negb (is_shift i) | Rep _ _ => true end) c.
+Proof.
+  induction c as [|x c IH]; intro H; [reflexivity|].
+  cbn [is_flat forallb] in H. apply andb_true_iff in H as [H1 H2]. destruct x as [i|n b]; [|discriminate].
+  rewrite noshift_cons. cbn [forallb]. rewrite <- (IH H2). unfold noshift at 1, flatten0. cbn. rewrite andb_true_r. reflexivity.
+Qed.
+
+Lemma noshift_select : forall c idx, is_flat c = true -> noshift c = true -> noshift (select c idx) = true.
+Proof.
+  intros c idx Hf Hn. rewrite noshift_flat_items by (apply is_flat_select; exact Hf).
+  rewrite noshift_flat_items in Hn by exact Hf. rewrite forallb_forall in *. intros x Hx.
+  unfold select in Hx. apply in_flat_map in Hx as (k & _ & Hx).
+  destruct (nth_error c k) as [y|] eqn:E; [|contradiction]. destruct Hx as [<-|[]]. apply Hn. eapply nth_error_In. exact E.
+Qed.
+
+Lemma In_remove_nth : forall {A} k (l : list A) x, In x (remove_nth k l) -> In x l.
+Proof.
+  induction k as [|k IH]; intros [|y l] x H; cbn [remove_nth] in H; try contradiction.
+  - right. exact H.
+  - destruct H as [->|H]; [left; reflexivity|right; apply IH; exact H].
+Qed.
+
+Lemma noshift_pop_at : forall i c, is_flat c = true -> noshift c = true -> noshift (pop_at i c) = true.
+Proof.
+  intros i c Hf Hn. unfold pop_at. destruct (norm_index _ _) as [k|]; [|exact Hn].
+  rewrite noshift_flat_items by (apply is_flat_remove_nth; exact Hf).
+  rewrite noshift_flat_items in Hn by exact Hf. rewrite forallb_forall in *. intros x Hx. apply Hn. eapply In_remove_nth. exact Hx.
+Qed.
+
+(* ---- abstract interpreter 1: flatness ------------------------------------------------------------------ *)
+Fixpoint flat_exp (sf o : bool) (e : oexp) : bool :=
+  match e with
+  | XSelf => sf
+  | XOtherT | XOtherS => o
+  | XParse => false
+  | XEmpty => true
+  | XCopy e => flat_exp sf o e
+  | XFlattened _ => true
+  | XMul _ => false
+  | XSlice e | XWithoutNoise e | XFiltered _ e => flat_exp sf o e
+  end.
+Definition fother (sf : bool) (fo : option bool) : bool := match fo with Some b => b | None => sf end.
+Definition flat_stmt (s : stmt) (sf : bool) (fo : option bool) : bool * option bool :=
+  let o := fother sf fo in
+  match s with
+  | SSetSelf e => (flat_exp sf o e, Some o)
+  | SIAdd e => (sf && flat_exp sf o e, fo)
+  | SIMul | SAppendText => (false, fo)
+  | SPop => (sf, fo)
+  end.
+Fixpoint flat_stmts (l : list stmt) (sf : bool) (fo : option bool) : bool * option bool :=
+  match l with
+  | [] => (sf, fo)
+  | s :: r => let '(sf1, fo1) := flat_stmt s sf fo in flat_stmts r sf1 fo1
+  end.
+(* the receiver stays flat, and a returned new Circuit is flat *)
+Definition flat_method (m : meffect) (fo : option bool) : bool :=
+  let '(sf1, fo1) := flat_stmts (pre m) true fo in
+  sf1 && match ret m with
+         | RNew e => fst (flat_stmts (post m) (flat_exp sf1 (fother sf1 fo1) e) (Some (fother sf1 fo1)))
+         | _ => true
+         end.
+
+Definition FA (b : bool) (c : circ) : Prop := b = true -> is_flat c = true.
+Definition FO (fo : option bool) (co : option circ) : Prop :=
+  match fo, co with Some b, Some o => FA b o | None, None => True | _, _ => False end.
+
+Lemma FA_fother : forall sf fo cs co, FA sf cs -> FO fo co -> FA (fother sf fo) (vother cs co).
+Proof. intros sf [b|] cs [o|] H1 H2; cbn in *; try contradiction; assumption. Qed.
+
+Lemma flat_exp_sound : forall e ar sf o cs ov, FA sf cs -> FA o ov -> FA (flat_exp sf o e) (vexp e ar cs ov).
+Proof.
+  induction e as [| | | | |e0 IH|e0 IH|e0 IH|e0 IH|e0 IH|names e0 IH]; intros ar sf o cs ov H1 H2; cbn [flat_exp vexp]; try assumption.
+  - intro; discriminate.
+  - intro; reflexivity.
+  - apply IH; assumption.
+  - intro. apply is_flat_flattened.
+  - intro; discriminate.
+  - intro F. apply is_flat_stim_slice. exact (IH ar sf o cs ov H1 H2 F).
+  - intro F. rewrite (is_flat_embed_flatten0 _ (IH ar sf o cs ov H1 H2 F)). apply is_flat_stim_without_noise.
+  - intro F. rewrite (is_flat_embed_flatten0 _ (IH ar sf o cs ov H1 H2 F)). apply is_flat_stim_filtered.
+Qed.
+
+Lemma flat_stmt_sound : forall s ar sf fo cs co, FA sf cs -> FO fo co ->
+  FA (fst (flat_stmt s sf fo)) (fst (vstmt s ar cs co)) /\ FO (snd (flat_stmt s sf fo)) (snd (vstmt s ar cs co)).
+Proof.
+  intros s ar sf fo cs co H1 H2. pose proof (FA_fother _ _ _ _ H1 H2) as H3.
+  destruct s as [e|e| | |]; cbn [flat_stmt vstmt fst snd].
+  - split; [apply flat_exp_sound; assumption|exact H3].
+  - split; [|exact H2]. intro F. apply andb_true_iff in F as [F1 F2].
+    destruct (reads_self e co); [apply is_flat_stim_iadd_self; exact (H1 F1)|].
+    apply is_flat_stim_iadd; [exact (H1 F1)|]. exact (flat_exp_sound e ar _ _ _ _ H1 H3 F2).
+  - split; [intro; discriminate|exact H2].
+  - split; [intro; discriminate|exact H2].
+  - split; [|exact H2]. intro F. apply is_flat_pop_at. exact (H1 F).
+Qed.
+
+Lemma flat_stmts_sound : forall l ar sf fo cs co, FA sf cs -> FO fo co ->
+  FA (fst (flat_stmts l sf fo)) (fst (vstmts l ar cs co)) /\ FO (snd (flat_stmts l sf fo)) (snd (vstmts l ar cs co)).
+Proof.
+  induction l as [|s l IH]; intros ar sf fo cs co H1 H2; [split; assumption|].
+  cbn [flat_stmts vstmts]. destruct (flat_stmt_sound s ar sf fo cs co H1 H2) as [G1 G2].
+  destruct (flat_stmt s sf fo) as [sf1 fo1]. destruct (vstmt s ar cs co) as [cs1 co1]. apply IH; assumption.
+Qed.
+
+Lemma flat_method_sound : forall m ar fo cs co, is_flat cs = true -> FO fo co -> flat_method m fo = true ->
+  is_flat (fst (vmethod m ar cs co)) = true /\
+  match vout m ar cs co with VNewT c => is_flat c = true | _ => True end.
+Proof.
+  intros m ar fo cs co Hc Ho FM. unfold flat_method in FM. unfold vout, vmethod.
+  destruct (flat_stmts_sound (pre m) ar true fo cs co (fun _ => Hc) Ho) as [G1 G2].
+  destruct (flat_stmts (pre m) true fo) as [sf1 fo1]. destruct (vstmts (pre m) ar cs co) as [cs1 co1].
+  cbn [fst snd] in *. apply andb_true_iff in FM as [F1 F2].
+  pose proof (FA_fother _ _ _ _ G1 G2) as G3.
+  destruct (ret m) as [| | |e|e]; cbn [fst snd]; try (split; [exact (G1 F1)|exact I]).
+  split; [exact (G1 F1)|].
+  pose proof (flat_exp_sound e ar _ _ _ _ G1 G3) as G4.
+  destruct (flat_stmts_sound (post m) ar _ (Some (fother sf1 fo1)) _ (Some (vother cs1 co1)) G4 G3) as [G5 _].
+  exact (G5 F2).
+Qed.
+
+(* ---- abstract interpreter 2: what an effect means for the reference (structural, no merging) ------- *)
+Fixpoint rexp (e : oexp) (ar : args) (cs ov rs ro : circ) : circ :=
+  match e with
+  | XSelf => rs
+  | XOtherT | XOtherS => ro
+  | XParse => a_text ar
+  | XEmpty => []
+  | XCopy e | XFlattened e => rexp e ar cs ov rs ro
+  | XMul e => [Rep (Z.to_nat (a_n ar)) (rexp e ar cs ov rs ro)]
+  | XSlice e => stim_slice (a_start ar) (a_stop ar) (a_step ar) (vexp e ar cs ov)   (* representative: tsim's own list *)
+  | XWithoutNoise e => ref_without_noise (rexp e ar cs ov rs ro)
+  | XFiltered names e => ref_drop names (rexp e ar cs ov rs ro)
+  end.
+Definition rstmt (s : stmt) (ar : args) (cs : circ) (co : option circ) (rs : circ) (rco : option circ) : circ * option circ :=
+  let o := vother cs co in
+  let ro := vother rs rco in
+  match s with
+  | SSetSelf e => (rexp e ar cs o rs ro, Some ro)
+  | SIAdd e => (rs ++ rexp e ar cs o rs ro, rco)
+  | SIMul => ([Rep (Z.to_nat (a_n ar)) rs], rco)
+  | SAppendText => (rs ++ a_text ar, rco)
+  | SPop => (pop_at (a_idx ar) cs, rco)
+  end.
+Fixpoint rstmts (l : list stmt) (ar : args) (cs : circ) (co : option circ) (rs : circ) (rco : option circ) : circ * option circ :=
+  match l with
+  | [] => (rs, rco)
+  | s :: r => let '(cs1, co1) := vstmt s ar cs co in
+              let '(rs1, rco1) := rstmt s ar cs co rs rco in rstmts r ar cs1 co1 rs1 rco1
+  end.
+Definition rmethod (m : meffect) (ar : args) (cs : circ) (co : option circ) (rs : circ) (rco : option circ)
+  : circ * option (bool * circ) :=
+  let '(cs1, co1) := vstmts (pre m) ar cs co in
+  let '(rs1, rco1) := rstmts (pre m) ar cs co rs rco in
+  let o1 := vother cs1 co1 in
+  let ro1 := vother rs1 rco1 in
+  match ret m with
+  | RNew e => (rs1, Some (true, fst (rstmts (post m) ar (vexp e ar cs1 o1) (Some o1) (rexp e ar cs1 o1 rs1 ro1) (Some ro1))))
+  | RStim e => (rs1, Some (false, rexp e ar cs1 o1 rs1 ro1))
+  | _ => (rs1, None)
+  end.
+
+Fixpoint rexp_ok (sf o : bool) (e : oexp) : bool :=
+  match e with
+  | XSelf | XOtherT | XOtherS | XParse | XEmpty => true
+  | XCopy e | XFlattened e | XMul e => rexp_ok sf o e
+  | XSlice e | XWithoutNoise e | XFiltered _ e => flat_exp sf o e && rexp_ok sf o e
+  end.
+Definition aliased_read (e : oexp) (fo : option bool) : bool :=
+  match e with
+  | XSelf => true
+  | XOtherT | XOtherS => match fo with None => true | Some _ => false end
+  | _ => false
+  end.
+Definition rstmt_ok (s : stmt) (sf : bool) (fo : option bool) : bool :=
+  let o := fother sf fo in
+  match s with
+  | SSetSelf e => rexp_ok sf o e
+  | SIAdd e => negb (aliased_read e fo) && rexp_ok sf o e
+  | SIMul | SAppendText => true
+  | SPop => sf
+  end.
+Fixpoint rstmts_ok (l : list stmt) (sf : bool) (fo : option bool) : bool :=
+  match l with
+  | [] => true
+  | s :: r => rstmt_ok s sf fo && let '(sf1, fo1) := flat_stmt s sf fo in rstmts_ok r sf1 fo1
+  end.
+Definition rmethod_ok (m : meffect) (fo : option bool) : bool :=
+  rstmts_ok (pre m) true fo &&
+  let '(sf1, fo1) := flat_stmts (pre m) true fo in
+  let o1 := fother sf1 fo1 in
+  match ret m with
+  | RNew e => rexp_ok sf1 o1 e && rstmts_ok (post m) (flat_exp sf1 o1 e) (Some o1)
+  | RStim e => rexp_ok sf1 o1 e
+  | _ => true
+  end.
+
+Definition SR (cs : circ) (co : option circ) (rs : circ) (rco : option circ) : Prop :=
+  sim cs rs /\ noshift rs = true /\
+  match co, rco with
+  | Some o, Some ro => sim o ro /\ noshift ro = true
+  | None, None => True
+  | _, _ => False
+  end.
+
+Lemma SR_other : forall cs co rs rco, SR cs co rs rco ->
+  sim (vother cs co) (vother rs rco) /\ noshift (vother rs rco) = true.
+Proof. intros cs [o|] rs [ro|] (H1 & H2 & H3); cbn [vother]; try contradiction; tauto. Qed.
+
+Lemma FO_aliased : forall e fo co, FO fo co -> aliased_read e fo = reads_self e co.
+Proof. intros e [b|] [o|] H; cbn in H; try contradiction; destruct e; reflexivity. Qed.
+
+Lemma rexp_sound : forall e ar sf o cs ov rs ro,
+  sim cs rs -> noshift rs = true -> sim ov ro -> noshift ro = true ->
+  noshift (a_text ar) = true -> (0 <= a_n ar)%Z -> FA sf cs -> FA o ov -> rexp_ok sf o e = true ->
+  sim (vexp e ar cs ov) (rexp e ar cs ov rs ro) /\ noshift (rexp e ar cs ov rs ro) = true.
+Proof.
+  induction e as [| | | | |e0 IH|e0 IH|e0 IH|e0 IH|e0 IH|names e0 IH];
+    intros ar sf o cs ov rs ro Hs Hns Ho Hno Ht Hn Fs Fo OK; cbn [vexp rexp rexp_ok] in *.
+  - split; assumption.
+  - split; assumption.
+  - split; assumption.
+  - split; [apply simc_refl|exact Ht].
+  - split; [apply simc_refl|reflexivity].
+  - apply (IH ar sf o); assumption.
+  - destruct (IH ar sf o cs ov rs ro Hs Hns Ho Hno Ht Hn Fs Fo OK) as [G1 G2].
+    split; [|exact G2]. eapply simc_trans; [|exact G1]. apply flattened_simc.
+    rewrite (noshift_simc _ _ G1). exact G2.
+  - destruct (IH ar sf o cs ov rs ro Hs Hns Ho Hno Ht Hn Fs Fo OK) as [G1 G2].
+    split; [|apply noshift_rep; exact G2].
+    eapply simc_trans; [apply stim_mul_simc; exact Hn|]. apply simc_rep. exact G1.
+  - apply andb_true_iff in OK as [F OK].
+    destruct (IH ar sf o cs ov rs ro Hs Hns Ho Hno Ht Hn Fs Fo OK) as [G1 G2].
+    pose proof (flat_exp_sound e0 ar sf o cs ov Fs Fo F) as Ff.
+    split; [apply simc_refl|]. unfold stim_slice. apply noshift_select; [exact Ff|].
+    rewrite (noshift_simc _ _ G1). exact G2.
+  - apply andb_true_iff in OK as [F OK].
+    destruct (IH ar sf o cs ov rs ro Hs Hns Ho Hno Ht Hn Fs Fo OK) as [G1 G2].
+    pose proof (flat_exp_sound e0 ar sf o cs ov Fs Fo F) as Ff.
+    split; [|apply noshift_ref_without_noise; exact G2].
+    unfold sim. rewrite (is_flat_embed_flatten0 _ Ff) at 1. rewrite stim_without_noise_flat.
+    rewrite flatten0_ref_without_noise. apply fuse_wnl_congr. exact G1.
+  - apply andb_true_iff in OK as [F OK].
+    destruct (IH ar sf o cs ov rs ro Hs Hns Ho Hno Ht Hn Fs Fo OK) as [G1 G2].
+    pose proof (flat_exp_sound e0 ar sf o cs ov Fs Fo F) as Ff.
+    split; [|apply noshift_ref_drop; exact G2].
+    unfold sim. rewrite (is_flat_embed_flatten0 _ Ff) at 1. rewrite stim_filtered_flat.
+    rewrite flatten0_ref_drop. apply fuse_keepl_congr. exact G1.
+Qed.
+
+Lemma rstmt_sound : forall s ar sf fo cs co rs rco,
+  SR cs co rs rco -> FA sf cs -> FO fo co -> noshift (a_text ar) = true -> (0 <= a_n ar)%Z ->
+  rstmt_ok s sf fo = true ->
+  SR (fst (vstmt s ar cs co)) (snd (vstmt s ar cs co)) (fst (rstmt s ar cs co rs rco)) (snd (rstmt s ar cs co rs rco)).
+Proof.
+  intros s ar sf fo cs co rs rco R Fs Ff Ht Hn OK.
+  destruct (SR_other _ _ _ _ R) as [Ro Rno]. pose proof (FA_fother _ _ _ _ Fs Ff) as Fo.
+  destruct R as (Rs & Rns & Rc).
+  destruct s as [e|e| | |]; cbn [vstmt rstmt rstmt_ok fst snd] in *.
+  - destruct (rexp_sound e ar sf _ cs _ rs _ Rs Rns Ro Rno Ht Hn Fs Fo OK) as [G1 G2].
+    unfold SR. repeat split; assumption.
+  - apply andb_true_iff in OK as [A OK]. rewrite (FO_aliased e fo co Ff) in A. apply negb_true_iff in A. rewrite A.
+    destruct (rexp_sound e ar sf _ cs _ rs _ Rs Rns Ro Rno Ht Hn Fs Fo OK) as [G1 G2].
+    unfold SR. split; [|split; [|exact Rc]].
+    + eapply simc_trans; [apply stim_iadd_simc|]. apply simc_app; assumption.
+    + rewrite noshift_app, Rns, G2. reflexivity.
+  - unfold SR. split; [|split; [|exact Rc]].
+    + eapply simc_trans; [apply stim_mul_simc; exact Hn|]. apply simc_rep. exact Rs.
+    + apply noshift_rep. exact Rns.
+  - unfold SR. split; [|split; [|exact Rc]].
+    + eapply simc_trans; [apply stim_iadd_simc|]. apply simc_app; [exact Rs|apply simc_refl].
+    + rewrite noshift_app, Rns, Ht. reflexivity.
+  - unfold SR. split; [apply simc_refl|split; [|exact Rc]].
+    apply noshift_pop_at; [exact (Fs OK)|]. rewrite (noshift_simc _ _ Rs). exact Rns.
+Qed.
+
+Lemma rstmts_sound : forall l ar sf fo cs co rs rco,
+  SR cs co rs rco -> FA sf cs -> FO fo co -> noshift (a_text ar) = true -> (0 <= a_n ar)%Z ->
+  rstmts_ok l sf fo = true ->
+  SR (fst (vstmts l ar cs co)) (snd (vstmts l ar cs co)) (fst (rstmts l ar cs co rs rco)) (snd (rstmts l ar cs co rs rco)).
+Proof.
+  induction l as [|s l IH]; intros ar sf fo cs co rs rco R Fs Ff Ht Hn OK; [exact R|].
+  cbn [rstmts_ok] in OK. apply andb_true_iff in OK as [OK1 OK2].
+  pose proof (rstmt_sound s ar sf fo cs co rs rco R Fs Ff Ht Hn OK1) as R1.
+  destruct (flat_stmt_sound s ar sf fo cs co Fs Ff) as [F1 F2].
+  cbn [vstmts rstmts]. destruct (flat_stmt s sf fo) as [sf1 fo1]. destruct (vstmt s ar cs co) as [cs1 co1].
+  destruct (rstmt s ar cs co rs rco) as [rs1 rco1]. cbn [fst snd] in *.
+  apply (IH ar sf1 fo1); assumption.
+Qed.
+
+Lemma rmethod_sound : forall m ar fo cs co rs rco,
+  SR cs co rs rco -> is_flat cs = true -> FO fo co -> noshift (a_text ar) = true -> (0 <= a_n ar)%Z ->
+  rmethod_ok m fo = true ->
+  sim (fst (vmethod m ar cs co)) (fst (rmethod m ar cs co rs rco)) /\
+  noshift (fst (rmethod m ar cs co rs rco)) = true /\
+  match vout m ar cs co, snd (rmethod m ar cs co rs rco) with
+  | VNone, None => True
+  | VNewT c, Some (true, r) | VNewS c, Some (false, r) => sim c r /\ noshift r = true
+  | _, _ => False
+  end.
+Proof.
+  intros m ar fo cs co rs rco R Hc Ff Ht Hn OK. unfold rmethod_ok in OK. apply andb_true_iff in OK as [OK1 OK2].
+  pose proof (rstmts_sound (pre m) ar true fo cs co rs rco R (fun _ => Hc) Ff Ht Hn OK1) as R1.
+  destruct (flat_stmts_sound (pre m) ar true fo cs co (fun _ => Hc) Ff) as [F1 F2].
+  unfold vout, vmethod, rmethod.
+  destruct (flat_stmts (pre m) true fo) as [sf1 fo1]. destruct (vstmts (pre m) ar cs co) as [cs1 co1].
+  destruct (rstmts (pre m) ar cs co rs rco) as [rs1 rco1]. cbn [fst snd] in *.
+  destruct (SR_other _ _ _ _ R1) as [Ro Rno]. pose proof (FA_fother _ _ _ _ F1 F2) as Fo.
+  destruct R1 as (Rs & Rns & Rc).
+  destruct (ret m) as [| | |e|e]; cbn [fst snd]; try (repeat split; assumption).
+  - apply andb_true_iff in OK2 as [OKe OKp].
+    destruct (rexp_sound e ar sf1 _ cs1 _ rs1 _ Rs Rns Ro Rno Ht Hn F1 Fo OKe) as [G1 G2].
+    split; [exact Rs|]. split; [exact Rns|].
+    assert (R2 : SR (vexp e ar cs1 (vother cs1 co1)) (Some (vother cs1 co1))
+                    (rexp e ar cs1 (vother cs1 co1) rs1 (vother rs1 rco1)) (Some (vother rs1 rco1))).
+    { unfold SR. repeat split; assumption. }
+    pose proof (rstmts_sound (post m) ar _ (Some (fother sf1 fo1)) _ _ _ _ R2
+                  (flat_exp_sound e ar _ _ _ _ F1 Fo) Fo Ht Hn OKp) as (R3 & R3n & _).
+    split; assumption.
+  - destruct (rexp_sound e ar sf1 _ cs1 _ rs1 _ Rs Rns Ro Rno Ht Hn F1 Fo OK2) as [G1 G2].
+    repeat split; assumption.
+Qed.
+
+(* ======================================================================================================= *)
+(* Part 3: invariants over histories, for the regenerated effects                                         *)
+(* ======================================================================================================= *)
+
+(* every check below is a closed boolean computed on the effect summaries of the CURRENT source *)
+Definition container_effects : list meffect :=
+  [eff_init; eff_from_stim_program; eff_append_text; eff_from_file; eff_iadd_t; eff_iadd_s; eff_add_t; eff_add_s;
+   eff_imul; eff_mul; eff_rmul; eff_getitem_int; eff_getitem_slice; eff_pop; eff_copy; eff_without_noise;
+   eff_without_annotations; eff_stim_circuit].
+Definition is_observer (m : meffect) : bool :=
+  match pre m, ret m with [], (RNone | RValue) => true | _, _ => false end.
+
+Definition checks_alias : bool :=
+  forallb method_ok container_effects && forallb (fun p => is_observer (snd p)) observer_effects &&
+  is_observer eff_getitem_int.
+(* flatness: with no operand / the receiver itself as operand (None), a flat tsim operand (Some true),
+   an arbitrary stim operand (Some false) *)
+Definition checks_flat : bool :=
+  forallb (fun m => flat_method m None)
+    [eff_init; eff_append_text; eff_iadd_t; eff_add_t; eff_imul; eff_mul; eff_rmul; eff_getitem_slice; eff_pop;
+     eff_copy; eff_without_noise; eff_without_annotations; eff_stim_circuit] &&
+  forallb (fun m => flat_method m (Some true)) [eff_iadd_t; eff_add_t] &&
+  forallb (fun m => flat_method m (Some false)) [eff_iadd_s; eff_add_s; eff_from_stim_program].
+Definition checks_ref : bool :=
+  forallb (fun m => rmethod_ok m None)
+    [eff_init; eff_append_text; eff_iadd_t; eff_add_t; eff_imul; eff_mul; eff_rmul; eff_getitem_slice; eff_pop;
+     eff_copy; eff_without_noise; eff_without_annotations; eff_stim_circuit] &&
+  forallb (fun m => rmethod_ok m (Some true)) [eff_iadd_t; eff_add_t] &&
+  forallb (fun m => rmethod_ok m (Some false)) [eff_iadd_s; eff_add_s; eff_from_stim_program].
+
+Lemma checks_alias_true : checks_alias = true. Proof. vm_compute. reflexivity. Qed.
+Lemma checks_flat_true : checks_flat = true. Proof. vm_compute. reflexivity. Qed.
+Lemma checks_ref_true : checks_ref = true. Proof. vm_compute. reflexivity. Qed.
+
+Ltac from_checks L :=
+  let H := fresh in pose proof L as H; unfold checks_alias, checks_flat, checks_ref, container_effects in H;
+  cbn [forallb] in H; repeat (apply andb_true_iff in H; let H' := fresh in destruct H as [H H']);
+  repeat match goal with X : _ && _ = true |- _ => apply andb_true_iff in X; let X' := fresh in destruct X as [X X'] end;
+  try assumption.
+
+Lemma observer_is_identity : forall m ar v oth s, is_observer m = true -> call m ar v oth s = s.
+Proof.
+  intros m ar v oth s H. unfold call. destruct (nth_error (tv s) v) as [a|] eqn:E; [|reflexivity].
+  unfold is_observer in H. unfold run_method. destruct (pre m); [|discriminate]. cbn [exec_stmts].
+  destruct (ret m); try discriminate; rewrite (set_nth_same _ _ _ E); destruct s; reflexivity.
+Qed.
+
+(* ---- invariant 1: well-formed heap (no aliasing), every wrapped circuit REPEAT-free ------------- *)
+Definition AllFlat (s : st) : Prop := forall v, v < List.length (tv s) -> is_flat (tval s v) = true.
+Definition Inv1 (s : st) : Prop := WF s /\ AllFlat s.
+
+Lemma call_Inv1 : forall m ar v oth s,
+  Inv1 s -> method_ok m = true ->
+  match oth with Some b => In b (allv s) | None => True end ->
+  (forall a, nth_error (tv s) v = Some a -> exists fo, FO fo (operand_val s a oth) /\ flat_method m fo = true) ->
+  Inv1 (call m ar v oth s).
+Proof.
+  intros m ar v oth s [W AF] OK Hoth Hfo.
+  destruct (nth_error (tv s) v) as [a|] eqn:E; [|unfold call; rewrite E; split; assumption].
+  destruct (Hfo a eq_refl) as (fo & Ffo & FM).
+  assert (Lv : v < List.length (tv s)) by (apply nth_error_Some; congruence).
+  destruct (call_spec m ar v oth s a W E OK Hoth) as (W' & Hv & Hothers & _ & Hout).
+  assert (Hc : is_flat (hread (heap_of s) a) = true) by (rewrite <- (tval_nth _ _ _ E); apply AF; exact Lv).
+  destruct (flat_method_sound m ar fo _ _ Hc Ffo FM) as [G1 G2].
+  split; [exact W'|]. intros v' Lv'.
+  destruct (Nat.eq_dec v' v) as [->|Hne]; [rewrite Hv; exact G1|].
+  destruct (vout m ar (hread (heap_of s) a) (operand_val s a oth)) as [|c|c].
+  - destruct Hout as [L1 _]. rewrite Hothers by lia. apply AF. lia.
+  - destruct Hout as (L1 & _ & Hnew). destruct (Nat.eq_dec v' (List.length (tv s))) as [->|Hne2]; [rewrite Hnew; exact G2|].
+    rewrite Hothers by lia. apply AF. lia.
+  - destruct Hout as [L1 _]. rewrite Hothers by lia. apply AF. lia.
+Qed.
+
+Lemma operand_addr_In : forall x s b, operand_addr x s = Some b -> In b (allv s).
+Proof. intros [w|w] s b H; cbn in H; apply nth_error_In in H; unfold allv; apply in_or_app; auto. Qed.
+
+Lemma FO_operand_T : forall s v w a b, Inv1 s -> nth_error (tv s) v = Some a -> nth_error (tv s) w = Some b ->
+  FO (if Nat.eqb b a then None else Some true) (operand_val s a (Some b)).
+Proof.
+  intros s v w a b [W AF] Ha Hb. unfold operand_val. destruct (Nat.eqb b a); cbn; [exact I|].
+  intros _. rewrite <- (tval_nth _ _ _ Hb). apply AF. apply nth_error_Some. congruence.
+Qed.
+
+Lemma FO_operand_S : forall s v w a b, Inv1 s -> nth_error (tv s) v = Some a -> nth_error (sv s) w = Some b ->
+  FO (Some false) (operand_val s a (Some b)).
+Proof.
+  intros s v w a b [W AF] Ha Hb. unfold operand_val.
+  assert (a <> b) by (eapply WF_tv_sv_distinct; eauto).
+  destruct (Nat.eqb b a) eqn:E; [apply Nat.eqb_eq in E; congruence|]. cbn. intro; discriminate.
+Qed.
+
+Lemma Inv1_new_handle : forall s, Inv1 s ->
+  Inv1 (mkSt (heap_of s ++ [[]]) (tv s ++ [List.length (heap_of s)]) (sv s)).
+Proof.
+  intros s [[Wlt Wnd] AF]. split; [split|].
+  - unfold allv. cbn [tv sv heap_of]. intros a Ha. rewrite app_length. cbn [List.length].
+    rewrite <- app_assoc in Ha. apply in_app_or in Ha as [Ha|[<-|Ha]]; [|lia|].
+    + assert (a < List.length (heap_of s)) by (apply Wlt; unfold allv; apply in_or_app; auto). lia.
+    + assert (a < List.length (heap_of s)) by (apply Wlt; unfold allv; apply in_or_app; auto). lia.
+  - unfold allv. cbn [tv sv]. rewrite <- app_assoc. cbn [app]. apply NoDup_insert; [exact Wnd|].
+    intro Hin. specialize (Wlt _ Hin). lia.
+  - intros v Lv. cbn [tv] in Lv. rewrite app_length in Lv. cbn [List.length] in Lv.
+    unfold tval. cbn [tv heap_of]. destruct (Nat.eq_dec v (List.length (tv s))) as [->|Hne].
+    + rewrite nth_error_app2 by lia. rewrite Nat.sub_diag. cbn [nth_error]. rewrite hread_alloc. reflexivity.
+    + assert (Lv' : v < List.length (tv s)) by lia. rewrite nth_error_app1 by exact Lv'.
+      destruct (nth_error (tv s) v) as [a|] eqn:E; [|reflexivity].
+      assert (a < List.length (heap_of s)) by (apply Wlt; unfold allv; apply in_or_app; left; eapply nth_error_In; exact E).
+      rewrite hread_app_l by assumption. rewrite <- (tval_nth _ _ _ E). apply AF. exact Lv'.
+Qed.
+
+Lemma static_call_spec : forall m ar b s,
+  WF s -> In b (allv s) -> method_ok m = true ->
+  let co := Some (hread (heap_of s) b) in
+  let s' := static_call m ar b s in
+  WF s' /\
+  (forall v, v < List.length (tv s) -> tval s' v = tval s v) /\
+  (forall w, w < List.length (sv s) -> sval s' w = sval s w) /\
+  match vout m ar [] co with
+  | VNone => List.length (tv s') = List.length (tv s) /\ List.length (sv s') = List.length (sv s)
+  | VNewT c => List.length (tv s') = S (List.length (tv s)) /\ List.length (sv s') = List.length (sv s) /\
+               tval s' (List.length (tv s)) = c
+  | VNewS c => List.length (tv s') = List.length (tv s) /\ List.length (sv s') = S (List.length (sv s)) /\
+               sval s' (List.length (sv s)) = c
+  end.
+Proof.
+  intros m ar b s W Hb OK co s'.
+  assert (Lb : b < List.length (heap_of s)) by (apply (proj1 W); exact Hb).
+  set (h0 := heap_of s ++ [[]]). set (self := List.length (heap_of s)).
+  assert (R : Rel h0 self b [] co).
+  { unfold Rel, h0, self, co. rewrite app_length. cbn [List.length]. repeat split; try lia.
+    - apply hread_alloc.
+    - apply hread_app_l. exact Lb. }
+  unfold s', static_call. fold h0 self.
+  destruct (run_method m ar self b h0) as [[h' a'] out] eqn:E.
+  destruct (run_method_spec _ _ _ _ _ _ _ _ _ _ E OK R) as ([L F] & Sa & La' & Hva' & Hout).
+  assert (L0 : List.length h0 = S (List.length (heap_of s))) by (unfold h0; rewrite app_length; cbn [List.length]; lia).
+  assert (OLD : forall x, In x (allv s) -> x < List.length h' /\ hread h' x = hread (heap_of s) x).
+  { intros x Hx. pose proof (proj1 W x Hx) as Lx. split; [lia|].
+    rewrite F; [unfold h0; apply hread_app_l; exact Lx|lia|unfold self; lia]. }
+  assert (TV : forall tv'' sv'', (forall v, v < List.length (tv s) -> nth_error tv'' v = nth_error (tv s) v) ->
+             forall v, v < List.length (tv s) -> tval (mkSt h' tv'' sv'') v = tval s v).
+  { intros tv'' sv'' Hn v Lv. unfold tval. cbn [tv heap_of]. rewrite (Hn v Lv).
+    destruct (nth_error (tv s) v) as [a|] eqn:Ea; [|reflexivity].
+    apply OLD. unfold allv. apply in_or_app. left. eapply nth_error_In. exact Ea. }
+  assert (SV : forall tv'' sv'', (forall w, w < List.length (sv s) -> nth_error sv'' w = nth_error (sv s) w) ->
+             forall w, w < List.length (sv s) -> sval (mkSt h' tv'' sv'') w = sval s w).
+  { intros tv'' sv'' Hn w Lw. unfold sval. cbn [sv heap_of]. rewrite (Hn w Lw).
+    destruct (nth_error (sv s) w) as [a|] eqn:Ea; [|reflexivity].
+    apply OLD. unfold allv. apply in_or_app. right. eapply nth_error_In. exact Ea. }
+  destruct out as [|c|c]; destruct (vout m ar [] co) as [|v0|v0]; try contradiction.
+  - split; [split|].
+    + unfold allv. cbn [tv sv heap_of]. intros x Hx. apply OLD. exact Hx.
+    + exact (proj2 W).
+    + split; [apply TV; auto|]. split; [apply SV; auto|]. cbn [tv sv]. auto.
+  - destruct Hout as (L1 & L2 & _ & Hvc). split; [split|].
+    + unfold allv. cbn [tv sv heap_of]. intros x Hx. rewrite <- app_assoc in Hx. cbn [app] in Hx.
+      apply in_app_or in Hx as [Hx|[<-|Hx]]; [apply OLD; unfold allv; apply in_or_app; auto|exact L2|apply OLD; unfold allv; apply in_or_app; auto].
+    + unfold allv. cbn [tv sv]. rewrite <- app_assoc. cbn [app]. apply NoDup_insert; [exact (proj2 W)|].
+      intro Hin. specialize (proj1 W _ Hin). lia.
+    + split; [apply TV; intros; apply nth_error_app1; assumption|]. split; [apply SV; auto|].
+      cbn [tv sv]. rewrite app_length. cbn [List.length]. split; [lia|]. split; [reflexivity|].
+      unfold tval. cbn [tv heap_of]. rewrite nth_error_app2 by lia. rewrite Nat.sub_diag. exact Hvc.
+  - destruct Hout as (L1 & L2 & _ & Hvc). split; [split|].
+    + unfold allv. cbn [tv sv heap_of]. intros x Hx. rewrite app_assoc in Hx.
+      apply in_app_or in Hx as [Hx|[<-|[]]]; [apply OLD; exact Hx|exact L2].
+    + unfold allv. cbn [tv sv]. rewrite app_assoc. apply (NoDup_insert (tv s ++ sv s) [] c); rewrite ?app_nil_r; [exact (proj2 W)|].
+      intro Hin. specialize (proj1 W _ Hin). lia.
+    + split; [apply TV; auto|]. split; [apply SV; intros; apply nth_error_app1; assumption|].
+      cbn [tv sv]. rewrite app_length. cbn [List.length]. split; [reflexivity|]. split; [lia|].
+      unfold sval. cbn [sv heap_of]. rewrite nth_error_app2 by lia. rewrite Nat.sub_diag. exact Hvc.
+Qed.
+
+Lemma observer_nth : forall k nm m, nth_error observer_effects k = Some (nm, m) -> is_observer m = true.
+Proof.
+  intros k nm m H. assert (A : forallb (fun p => is_observer (snd p)) observer_effects = true) by from_checks checks_alias_true.
+  rewrite forallb_forall in A. apply nth_error_In in H. exact (A _ H).
+Qed.
+
+Lemma Inv1_stim_new : forall s p, Inv1 s -> Inv1 (mkSt (heap_of s ++ [p]) (tv s) (sv s ++ [List.length (heap_of s)])).
+Proof.
+  intros s p [[Wlt Wnd] AF]. split; [split|].
+  - unfold allv. cbn [tv sv heap_of]. intros a Ha. rewrite app_length. cbn [List.length]. rewrite app_assoc in Ha.
+    apply in_app_or in Ha as [Ha|[<-|[]]]; [|lia]. specialize (Wlt _ Ha). lia.
+  - unfold allv. cbn [tv sv]. rewrite app_assoc. apply (NoDup_insert (tv s ++ sv s) [] _); rewrite ?app_nil_r; [exact Wnd|].
+    intro Hin. specialize (Wlt _ Hin). lia.
+  - intros v Lv. cbn [tv] in Lv. unfold tval. cbn [tv heap_of]. destruct (nth_error (tv s) v) as [a|] eqn:E; [|reflexivity].
+    assert (a < List.length (heap_of s)) by (apply Wlt; unfold allv; apply in_or_app; left; eapply nth_error_In; exact E).
+    rewrite hread_app_l by assumption. rewrite <- (tval_nth _ _ _ E). apply AF. exact Lv.
+Qed.
+
+Lemma t_step_Inv1 : forall o s, Inv1 s -> Inv1 (t_step o s).
+Proof.
+  intros o s IV. pose proof IV as [W AF].
+  assert (NOOP : forall m ar v, method_ok m = true -> flat_method m None = true -> Inv1 (call m ar v None s)).
+  { intros m ar v OK FM. apply call_Inv1; [exact IV|exact OK|exact I|]. intros a _. exists None. split; [exact I|exact FM]. }
+  destruct o as [p|w|v p|v x|v x|v n|v n|v n|v a b c|v i|v i|v|v|v|v|k v|p|w p]; cbn [t_step].
+  - apply call_Inv1; [apply Inv1_new_handle; exact IV|from_checks checks_alias_true|exact I|].
+    intros a _. exists None. split; [exact I|from_checks checks_flat_true].
+  - destruct (nth_error (sv s) w) as [b|] eqn:E; [|exact IV].
+    assert (Hb : In b (allv s)) by (unfold allv; apply in_or_app; right; eapply nth_error_In; exact E).
+    assert (OK : method_ok eff_from_stim_program = true) by from_checks checks_alias_true.
+    assert (FM : flat_method eff_from_stim_program (Some false) = true) by from_checks checks_flat_true.
+    destruct (static_call_spec eff_from_stim_program no_args b s W Hb OK) as (W' & Ht & _ & Hout).
+    split; [exact W'|]. intros v Lv.
+    destruct (flat_method_sound eff_from_stim_program no_args (Some false) [] (Some (hread (heap_of s) b)) eq_refl) as [_ G2];
+      [cbn; intro; discriminate|exact FM|].
+    destruct (vout eff_from_stim_program no_args [] (Some (hread (heap_of s) b))) as [|c|c].
+    + destruct Hout as [L1 _]. rewrite Ht by lia. apply AF. lia.
+    + destruct Hout as (L1 & _ & Hnew). destruct (Nat.eq_dec v (List.length (tv s))) as [->|Hne]; [rewrite Hnew; exact G2|].
+      rewrite Ht by lia. apply AF. lia.
+    + destruct Hout as [L1 _]. rewrite Ht by lia. apply AF. lia.
+  - apply NOOP; [from_checks checks_alias_true|from_checks checks_flat_true].
+  - destruct (operand_addr x s) as [b|] eqn:E; [|exact IV]. pose proof (operand_addr_In _ _ _ E) as Hb.
+    destruct x as [w|w]; cbn [operand_addr] in E.
+    + apply call_Inv1; [exact IV|from_checks checks_alias_true|exact Hb|].
+      intros a Ha. exists (if Nat.eqb b a then None else Some true). split; [eapply FO_operand_T; eauto|].
+      destruct (Nat.eqb b a); from_checks checks_flat_true.
+    + apply call_Inv1; [exact IV|from_checks checks_alias_true|exact Hb|].
+      intros a Ha. exists (Some false). split; [eapply FO_operand_S; eauto|from_checks checks_flat_true].
+  - destruct (operand_addr x s) as [b|] eqn:E; [|exact IV]. pose proof (operand_addr_In _ _ _ E) as Hb.
+    destruct x as [w|w]; cbn [operand_addr] in E.
+    + apply call_Inv1; [exact IV|from_checks checks_alias_true|exact Hb|].
+      intros a Ha. exists (if Nat.eqb b a then None else Some true). split; [eapply FO_operand_T; eauto|].
+      destruct (Nat.eqb b a); from_checks checks_flat_true.
+    + apply call_Inv1; [exact IV|from_checks checks_alias_true|exact Hb|].
+      intros a Ha. exists (Some false). split; [eapply FO_operand_S; eauto|from_checks checks_flat_true].
+  - destruct (n <? 0)%Z; [exact IV|]. apply NOOP; [from_checks checks_alias_true|from_checks checks_flat_true].
+  - destruct (n <? 0)%Z; [exact IV|]. apply NOOP; [from_checks checks_alias_true|from_checks checks_flat_true].
+  - destruct (n <? 0)%Z; [exact IV|]. apply NOOP; [from_checks checks_alias_true|from_checks checks_flat_true].
+  - destruct (c =? 0)%Z; [exact IV|]. apply NOOP; [from_checks checks_alias_true|from_checks checks_flat_true].
+  - destruct (norm_index i (tlen s v)); [|exact IV]. rewrite observer_is_identity; [exact IV|from_checks checks_alias_true].
+  - destruct (norm_index i (tlen s v)); [|exact IV]. apply NOOP; [from_checks checks_alias_true|from_checks checks_flat_true].
+  - apply NOOP; [from_checks checks_alias_true|from_checks checks_flat_true].
+  - apply NOOP; [from_checks checks_alias_true|from_checks checks_flat_true].
+  - apply NOOP; [from_checks checks_alias_true|from_checks checks_flat_true].
+  - apply NOOP; [from_checks checks_alias_true|from_checks checks_flat_true].
+  - destruct (nth_error observer_effects k) as [[nm m]|] eqn:E; [|exact IV].
+    rewrite observer_is_identity; [exact IV|]. eapply observer_nth. exact E.
+  - unfold halloc. apply Inv1_stim_new. exact IV.
+  - destruct (nth_error (sv s) w) as [b|] eqn:E; [|exact IV].
+    assert (Lb : b < List.length (heap_of s)) by (apply (proj1 W); unfold allv; apply in_or_app; right; eapply nth_error_In; exact E).
+    split; [split|].
+    + unfold allv. cbn [tv sv heap_of]. rewrite hwrite_length. exact (proj1 W).
+    + exact (proj2 W).
+    + intros v Lv. cbn [tv] in Lv. unfold tval. cbn [tv heap_of]. destruct (nth_error (tv s) v) as [a|] eqn:Ea; [|reflexivity].
+      rewrite hread_hwrite_other by (intro; subst; eapply WF_tv_sv_distinct; eauto).
+      rewrite <- (tval_nth _ _ _ Ea). apply AF. exact Lv.
+Qed.
+
+Lemma Inv1_st0 : Inv1 st0.
+Proof. split; [split|]; cbn; try tauto; try constructor. intros v H. inversion H. Qed.
+
+Lemma fold_left_inv : forall {A B} (P : A -> Prop) (f : A -> B -> A) l a,
+  P a -> (forall a b, P a -> P (f a b)) -> P (fold_left f l a).
+Proof. intros A B P f l. induction l as [|b l IH]; intros a Ha Hf; [exact Ha|]. cbn. apply IH; auto. Qed.
+
+Lemma t_run_Inv1 : forall h, Inv1 (t_run h).
+Proof. intro h. unfold t_run. apply fold_left_inv; [exact Inv1_st0|]. intros s o H. apply t_step_Inv1. exact H. Qed.
+
+(* ---- invariant 2: the heap refines the reference run (SHIFT_COORDS-free inputs) ------------------ *)
+Definition NS (r : rst) : Prop :=
+  Forall (fun c => noshift c = true) (rt r) /\ Forall (fun c => noshift c = true) (rs r).
+Definition J (s : st) (r : rst) : Prop := Inv1 s /\ refines s r /\ NS r.
+
+Lemma Forall_set_nth : forall {A} (P : A -> Prop) l k x, Forall P l -> P x -> Forall P (set_nth l k x).
+Proof.
+  intros A P l. induction l as [|y l IH]; intros [|k] x H Hx; cbn [set_nth]; try assumption.
+  - inversion H; subst. constructor; assumption.
+  - inversion H; subst. constructor; [assumption|]. apply IH; assumption.
+Qed.
+
+Lemma Forall_nth_default : forall {A} (P : A -> Prop) l k d, Forall P l -> P d -> P (nth k l d).
+Proof.
+  intros A P l. induction l as [|y l IH]; intros [|k] d H Hd; cbn [nth]; try assumption; inversion H; subst; [assumption|].
+  apply IH; assumption.
+Qed.
+
+Lemma noshift_nil : noshift [] = true. Proof. reflexivity. Qed.
+
+Definition operand_ref (x : option operand) (v : nat) (s : st) (r : rst) : option circ * option circ :=
+  match x with
+  | None => (None, None)
+  | Some (OpT w) => if Nat.eqb w v then (None, None) else (Some (tval s w), Some (nth w (rt r) []))
+  | Some (OpS w) => (Some (sval s w), Some (nth w (rs r) []))
+  end.
+Definition r_apply (r : rst) (v : nat) (res : circ * option (bool * circ)) : rst :=
+  let r1 := rset_t r v (fst res) in
+  match snd res with
+  | None => r1
+  | Some (true, c) => radd_t r1 c
+  | Some (false, c) => mkR (rt r1) (rs r1 ++ [c])
+  end.
+Definition r_call (m : meffect) (ar : args) (v : nat) (x : option operand) (s : st) (r : rst) : rst :=
+  let '(co, rco) := operand_ref x v s r in
+  r_apply r v (rmethod m ar (tval s v) co (nth v (rt r) []) rco).
+
+Definition operand_fo (x : option operand) (v : nat) : option bool :=
+  match x with
+  | None => None
+  | Some (OpT w) => if Nat.eqb w v then None else Some true
+  | Some (OpS _) => Some false
+  end.
+
+Lemma refines_apply : forall s s' r v res cs' vo,
+  refines s r -> NS r -> v < List.length (tv s) ->
+  AllFlat s' ->
+  tval s' v = cs' ->
+  (forall v', v' <> v -> v' < List.length (tv s) -> tval s' v' = tval s v') ->
+  (forall w, w < List.length (sv s) -> sval s' w = sval s w) ->
+  match vo with
+  | VNone => List.length (tv s') = List.length (tv s) /\ List.length (sv s') = List.length (sv s)
+  | VNewT c => List.length (tv s') = S (List.length (tv s)) /\ List.length (sv s') = List.length (sv s) /\
+               tval s' (List.length (tv s)) = c
+  | VNewS c => List.length (tv s') = List.length (tv s) /\ List.length (sv s') = S (List.length (sv s)) /\
+               sval s' (List.length (sv s)) = c
+  end ->
+  sim cs' (fst res) -> noshift (fst res) = true ->
+  match vo, snd res with
+  | VNone, None => True
+  | VNewT c, Some (true, rc) | VNewS c, Some (false, rc) => sim c rc /\ noshift rc = true
+  | _, _ => False
+  end ->
+  refines s' (r_apply r v res) /\ NS (r_apply r v res).
+Proof.
+  intros s s' r v [rs' out] cs' vo (RL1 & RL2 & RT & RS) [NS1 NS2] Lv AF' Hv Hothers Hsv Hlen Hsim Hns Hout.
+  cbn [fst snd] in *. unfold r_apply. cbn [fst snd].
+  assert (Lr : v < List.length (rt r)) by lia.
+  assert (SAME : forall v', v' < List.length (tv s) -> sim (tval s' v') (nth v' (set_nth (rt r) v rs') [])).
+  { intros v' Lv'. destruct (Nat.eq_dec v' v) as [->|Hne].
+    - rewrite nth_set_nth_same by exact Lr. rewrite Hv. exact Hsim.
+    - rewrite nth_set_nth_other by exact Hne. rewrite Hothers by assumption. apply RT. exact Lv'. }
+  assert (SAMES : forall w, w < List.length (sv s) -> sim (sval s' w) (nth w (rs r) [])).
+  { intros w Lw. rewrite Hsv by exact Lw. apply RS. exact Lw. }
+  assert (NSset : Forall (fun c => noshift c = true) (set_nth (rt r) v rs')) by (apply Forall_set_nth; assumption).
+  destruct vo as [|c|c]; destruct out as [[[|] rc]|]; try contradiction.
+  - split; [|split; assumption]. unfold refines. cbn [rset_t rt rs]. rewrite set_nth_length.
+    destruct Hlen as [L1 L2]. repeat split; try lia.
+    + apply AF'. assumption.
+    + apply SAME. lia.
+    + intros w Lw. apply SAMES. lia.
+  - destruct Hlen as (L1 & L2 & Hnew). destruct Hout as [Hs1 Hs2].
+    split.
+    + unfold refines. cbn [radd_t rset_t rt rs]. rewrite app_length, set_nth_length. cbn [List.length].
+      repeat split; try lia.
+      * apply AF'. assumption.
+      * destruct (Nat.eq_dec v0 (List.length (tv s))) as [->|Hne].
+        -- rewrite app_nth2 by (rewrite set_nth_length; lia). rewrite set_nth_length.
+           replace (List.length (tv s) - List.length (rt r)) with 0 by lia. cbn [nth]. rewrite Hnew. exact Hs1.
+        -- rewrite app_nth1 by (rewrite set_nth_length; lia). apply SAME. lia.
+      * intros w Lw. apply SAMES. lia.
+    + split; cbn [radd_t rset_t rt rs]; [|exact NS2]. apply Forall_app. split; [exact NSset|]. constructor; [exact Hs2|constructor].
+  - destruct Hlen as (L1 & L2 & Hnew). destruct Hout as [Hs1 Hs2].
+    split.
+    + unfold refines. cbn [rset_t rt rs]. rewrite app_length, set_nth_length. cbn [List.length].
+      repeat split; try lia.
+      * apply AF'. assumption.
+      * apply SAME. lia.
+      * intros w Lw. destruct (Nat.eq_dec w (List.length (sv s))) as [->|Hne].
+        -- rewrite app_nth2 by lia. replace (List.length (sv s) - List.length (rs r)) with 0 by lia. cbn [nth]. rewrite Hnew. exact Hs1.
+        -- rewrite app_nth1 by lia. apply SAMES. lia.
+    + split; cbn [rset_t rt rs]; [exact NSset|]. apply Forall_app. split; [exact NS2|]. constructor; [exact Hs2|constructor].
+Qed.
+
+Lemma call_refines : forall m ar v x s r,
+  J s r -> v < List.length (tv s) ->
+  match x with Some (OpT w) => w < List.length (tv s) | Some (OpS w) => w < List.length (sv s) | None => True end ->
+  method_ok m = true -> flat_method m (operand_fo x v) = true -> rmethod_ok m (operand_fo x v) = true ->
+  noshift (a_text ar) = true -> (0 <= a_n ar)%Z ->
+  J (call m ar v (match x with Some o => operand_addr o s | None => None end) s) (r_call m ar v x s r).
+Proof.
+  intros m ar v x s r (IV & RF & NSr) Lv Hx OK FM RM Ht Hn. pose proof IV as [W AF].
+  destruct (nth_error (tv s) v) as [a|] eqn:Ea; [|apply nth_error_None in Ea; lia].
+  set (oth := match x with Some o => operand_addr o s | None => None end).
+  assert (Hoth : match oth with Some b => In b (allv s) | None => True end).
+  { unfold oth. destruct x as [o|]; [|exact I]. destruct (operand_addr o s) eqn:E; [|exact I]. eapply operand_addr_In. exact E. }
+  pose proof RF as (RL1 & RL2 & RT & RS). pose proof NSr as [NS1 NS2].
+  assert (OV : operand_val s a oth = fst (operand_ref x v s r) /\
+               SR (tval s v) (fst (operand_ref x v s r)) (nth v (rt r) []) (snd (operand_ref x v s r)) /\
+               FO (operand_fo x v) (fst (operand_ref x v s r))).
+  { assert (B : sim (tval s v) (nth v (rt r) []) /\ noshift (nth v (rt r) []) = true).
+    { split; [apply RT; exact Lv|]. apply Forall_nth_default; [exact NS1|reflexivity]. }
+    unfold oth, operand_ref, operand_fo. destruct x as [[w|w]|]; cbn [operand_addr operand_val fst snd].
+    - destruct (nth_error (tv s) w) as [b|] eqn:Eb; [|apply nth_error_None in Eb; lia].
+      assert (EQ : Nat.eqb b a = Nat.eqb w v).
+      { destruct (Nat.eqb w v) eqn:E.
+        - apply Nat.eqb_eq in E. subst w. apply Nat.eqb_eq. congruence.
+        - apply Nat.eqb_neq in E. apply Nat.eqb_neq. intro. subst b. eapply (WF_tv_distinct s w v); eauto. }
+      unfold operand_val. rewrite EQ. destruct (Nat.eqb w v); cbn [fst snd].
+      + split; [reflexivity|]. split; [|exact I]. unfold SR. tauto.
+      + rewrite <- (tval_nth _ _ _ Eb). split; [reflexivity|]. split.
+        * unfold SR. repeat split; try tauto. { apply RT. exact Hx. } apply Forall_nth_default; [exact NS1|reflexivity].
+        * cbn. intros _. apply AF. exact Hx.
+    - destruct (nth_error (sv s) w) as [b|] eqn:Eb; [|apply nth_error_None in Eb; lia].
+      assert (a <> b) by (eapply WF_tv_sv_distinct; eauto).
+      unfold operand_val. destruct (Nat.eqb b a) eqn:E; [apply Nat.eqb_eq in E; congruence|].
+      rewrite <- (sval_nth _ _ _ Eb). split; [reflexivity|]. split.
+      + unfold SR. repeat split; try tauto. { apply RS. exact Hx. } apply Forall_nth_default; [exact NS2|reflexivity].
+      + cbn. intro; discriminate.
+    - split; [reflexivity|]. split; [|exact I]. unfold SR. tauto. }
+  destruct OV as (OV1 & OV2 & OV3).
+  assert (IV' : Inv1 (call m ar v oth s)).
+  { apply call_Inv1; [exact IV|exact OK|exact Hoth|]. intros a0 Ha0. rewrite Ea in Ha0. injection Ha0 as <-.
+    exists (operand_fo x v). rewrite OV1. split; assumption. }
+  destruct (call_spec m ar v oth s a W Ea OK Hoth) as (_ & Hv & Hothers & Hsv & Hout).
+  rewrite OV1, <- (tval_nth _ _ _ Ea) in Hv, Hout.
+  assert (Hc : is_flat (tval s v) = true) by (apply AF; exact Lv).
+  destruct (rmethod_sound m ar (operand_fo x v) _ _ _ _ OV2 Hc OV3 Ht Hn RM) as (G1 & G2 & G3).
+  unfold r_call. destruct (operand_ref x v s r) as [co rco]. cbn [fst snd] in *.
+  destruct (refines_apply s (call m ar v oth s) r v (rmethod m ar (tval s v) co (nth v (rt r) []) rco)
+              (fst (vmethod m ar (tval s v) co)) (vout m ar (tval s v) co) RF NSr Lv (proj2 IV') Hv Hothers Hsv Hout G1 G2 G3) as [R1 R2].
+  split; [exact IV'|]. split; assumption.
+Qed.
+
+(* ---- one step of the refinement ------------------------------------------------------------------------ *)
+Lemma rset_t_same : forall r v, v < List.length (rt r) -> rset_t r v (nth v (rt r) []) = r.
+Proof.
+  intros [l1 l2] v H. unfold rset_t. cbn [rt rs] in *. rewrite set_nth_same; [reflexivity|]. apply nth_error_nth'. exact H.
+Qed.
+
+Lemma call_none : forall m ar v oth s, nth_error (tv s) v = None -> call m ar v oth s = s.
+Proof. intros. unfold call. rewrite H. reflexivity. Qed.
+
+Lemma set_nth_app_last : forall {A} (l : list A) x y, set_nth (l ++ [x]) (List.length l) y = l ++ [y].
+Proof. induction l as [|z l IH]; intros x y; [reflexivity|]. cbn [app List.length set_nth]. rewrite IH. reflexivity. Qed.
+
+Ltac rcompute :=
+  unfold r_call, operand_ref, r_apply, rmethod;
+  cbn [eff_init eff_from_stim_program eff_append_text eff_iadd_t eff_iadd_s eff_add_t eff_add_s eff_imul eff_mul eff_rmul
+       eff_getitem_int eff_getitem_slice eff_pop eff_copy eff_without_noise eff_without_annotations eff_stim_circuit
+       pre ret post vstmts rstmts vstmt rstmt vexp rexp vother fst snd reads_self
+       with_text with_n with_slice with_idx no_args a_text a_n a_start a_stop a_step a_idx].
+
+Lemma nth_error_rs : forall (r : rst) w, w < List.length (rs r) -> nth_error (rs r) w = Some (nth w (rs r) []).
+Proof. intros. apply nth_error_nth'. assumption. Qed.
+Lemma nth_error_rt : forall (r : rst) w, w < List.length (rt r) -> nth_error (rt r) w = Some (nth w (rt r) []).
+Proof. intros. apply nth_error_nth'. assumption. Qed.
+
+Lemma step_J_receiver : forall (s : st) (r : rst) v, J s r ->
+  (v < List.length (tv s) /\ nth_error (rt r) v = Some (nth v (rt r) []) /\ v < List.length (rt r)) \/
+  (nth_error (tv s) v = None /\ nth_error (rt r) v = None).
+Proof.
+  intros s r v (_ & (L1 & _) & _). destruct (Nat.lt_ge_cases v (List.length (tv s))) as [H|H].
+  - left. split; [exact H|]. split; [apply nth_error_nth'; lia|lia].
+  - right. split; apply nth_error_None; lia.
+Qed.
+
+(* a method without receiver *)
+Definition r_static (m : meffect) (ar : args) (w : nat) (s : st) (r : rst) : rst :=
+  match snd (rmethod m ar [] (Some (sval s w)) [] (Some (nth w (rs r) []))) with
+  | None => r
+  | Some (true, c) => radd_t r c
+  | Some (false, c) => mkR (rt r) (rs r ++ [c])
+  end.
+
+Lemma static_refines : forall m ar w b s r,
+  J s r -> nth_error (sv s) w = Some b ->
+  method_ok m = true -> flat_method m (Some false) = true -> rmethod_ok m (Some false) = true ->
+  noshift (a_text ar) = true -> (0 <= a_n ar)%Z ->
+  J (static_call m ar b s) (r_static m ar w s r).
+Proof.
+  intros m ar w b s r (IV & RF & NSr) Eb OK FM RM Ht Hn. pose proof IV as [W AF].
+  pose proof RF as (RL1 & RL2 & RT & RS). pose proof NSr as [NS1 NS2].
+  assert (Lw : w < List.length (sv s)) by (apply nth_error_Some; congruence).
+  assert (Hb : In b (allv s)) by (unfold allv; apply in_or_app; right; eapply nth_error_In; exact Eb).
+  destruct (static_call_spec m ar b s W Hb OK) as (W' & Ht' & Hs' & Hout).
+  rewrite <- (sval_nth _ _ _ Eb) in Hout.
+  assert (R0 : SR [] (Some (sval s w)) [] (Some (nth w (rs r) []))).
+  { unfold SR. repeat split; try reflexivity; [apply RS; exact Lw|]. apply Forall_nth_default; [exact NS2|reflexivity]. }
+  assert (F0 : FO (Some false) (Some (sval s w))) by (cbn; intro; discriminate).
+  destruct (flat_method_sound m ar (Some false) [] (Some (sval s w)) eq_refl F0 FM) as [_ G2].
+  destruct (rmethod_sound m ar (Some false) _ _ _ _ R0 eq_refl F0 Ht Hn RM) as (_ & _ & G3).
+  unfold r_static.
+  set (s' := static_call m ar b s) in *.
+  assert (OLDT : forall v, v < List.length (tv s) -> is_flat (tval s' v) = true /\ sim (tval s' v) (nth v (rt r) [])).
+  { intros v Lv. rewrite Ht' by exact Lv. split; [apply AF; exact Lv|apply RT; exact Lv]. }
+  assert (OLDS : forall w0, w0 < List.length (sv s) -> sim (sval s' w0) (nth w0 (rs r) [])).
+  { intros w0 L0. rewrite Hs' by exact L0. apply RS. exact L0. }
+  destruct (vout m ar [] (Some (sval s w))) as [|c|c];
+    destruct (snd (rmethod m ar [] (Some (sval s w)) [] (Some (nth w (rs r) [])))) as [[[|] rc]|]; try contradiction.
+  - destruct Hout as [L1 L2]. split; [split; [exact W'|intros v Lv; apply OLDT; lia]|].
+    split; [|exact NSr]. unfold refines. repeat split; try lia.
+    + apply OLDT. lia. + apply OLDT. lia. + intros w0 L0. apply OLDS. lia.
+  - destruct Hout as (L1 & L2 & Hnew). destruct G3 as [Hs1 Hs2].
+    assert (AF' : AllFlat s').
+    { intros v Lv. destruct (Nat.eq_dec v (List.length (tv s))) as [->|Hne]; [rewrite Hnew; exact G2|]. apply OLDT. lia. }
+    split; [split; [exact W'|exact AF']|]. split.
+    + unfold refines. cbn [radd_t rt rs]. rewrite app_length. cbn [List.length]. repeat split; try lia.
+      * apply AF'. assumption.
+      * destruct (Nat.eq_dec v (List.length (tv s))) as [->|Hne].
+        -- rewrite app_nth2 by lia. replace (List.length (tv s) - List.length (rt r)) with 0 by lia. cbn [nth]. rewrite Hnew. exact Hs1.
+        -- rewrite app_nth1 by lia. apply OLDT. lia.
+      * intros w0 L0. apply OLDS. lia.
+    + split; cbn [radd_t rt rs]; [|exact NS2]. apply Forall_app. split; [exact NS1|]. constructor; [exact Hs2|constructor].
+  - destruct Hout as (L1 & L2 & Hnew). destruct G3 as [Hs1 Hs2].
+    split; [split; [exact W'|intros v Lv; apply OLDT; lia]|]. split.
+    + unfold refines. cbn [rt rs]. rewrite app_length. cbn [List.length]. repeat split; try lia.
+      * apply OLDT. lia.
+      * apply OLDT. lia.
+      * intros w0 L0. destruct (Nat.eq_dec w0 (List.length (sv s))) as [->|Hne].
+        -- rewrite app_nth2 by lia. replace (List.length (sv s) - List.length (rs r)) with 0 by lia. cbn [nth]. rewrite Hnew. exact Hs1.
+        -- rewrite app_nth1 by lia. apply OLDS. lia.
+    + split; cbn [rt rs]; [exact NS1|]. apply Forall_app. split; [exact NS2|]. constructor; [exact Hs2|constructor].
+Qed.
+
+Lemma J_new_handle : forall s r, J s r ->
+  J (mkSt (heap_of s ++ [[]]) (tv s ++ [List.length (heap_of s)]) (sv s)) (radd_t r []).
+Proof.
+  intros s r (IV & RF & NSr). pose proof IV as [W AF]. pose proof RF as (RL1 & RL2 & RT & RS). destruct NSr as [NS1 NS2].
+  pose proof (Inv1_new_handle s IV) as IV'. split; [exact IV'|]. split.
+  - unfold refines. cbn [radd_t rt rs tv sv]. rewrite !app_length. cbn [List.length]. split; [lia|]. split; [lia|]. split.
+    + intros v Lv. split; [apply (proj2 IV'); cbn [tv]; rewrite app_length; cbn [List.length]; lia|].
+      unfold tval. cbn [tv heap_of]. destruct (Nat.eq_dec v (List.length (tv s))) as [->|Hne].
+      * rewrite nth_error_app2 by lia. rewrite Nat.sub_diag. cbn [nth_error]. rewrite hread_alloc.
+        rewrite app_nth2 by lia. replace (List.length (tv s) - List.length (rt r)) with 0 by lia. apply simc_refl.
+      * assert (Lv' : v < List.length (tv s)) by lia. rewrite nth_error_app1 by exact Lv'. rewrite app_nth1 by lia.
+        specialize (RT v Lv'). unfold tval in RT. destruct (nth_error (tv s) v) as [a|] eqn:E; [|exact (proj2 RT)].
+        assert (a < List.length (heap_of s)) by (apply (proj1 W); unfold allv; apply in_or_app; left; eapply nth_error_In; exact E).
+        rewrite hread_app_l by assumption. exact (proj2 RT).
+    + intros w Lw. specialize (RS w Lw). unfold sval in *. cbn [sv heap_of]. destruct (nth_error (sv s) w) as [a|] eqn:E; [|exact RS].
+      assert (a < List.length (heap_of s)) by (apply (proj1 W); unfold allv; apply in_or_app; right; eapply nth_error_In; exact E).
+      rewrite hread_app_l by assumption. exact RS.
+  - split; cbn [radd_t rt rs]; [|exact NS2]. apply Forall_app. split; [exact NS1|]. constructor; [reflexivity|constructor].
+Qed.
+
+Lemma step_J : forall o s r, J s r -> noshift_op o = true -> exists r', ref_step o r r' /\ J (t_step o s) r'.
+Proof.
+  intros o s r HJ NSo. pose proof HJ as (IV & RF & NSr). pose proof IV as [W AF].
+  pose proof RF as (RL1 & RL2 & RT & RS). pose proof NSr as [NS1 NS2].
+  assert (CHK_A := checks_alias_true). assert (CHK_F := checks_flat_true). assert (CHK_R := checks_ref_true).
+  destruct o as [p|w|v p|v x|v x|v n|v n|v n|v a b c|v i|v i|v|v|v|v|k v|p|w p]; cbn [t_step ref_step noshift_op] in *.
+  - (* OText *)
+    exists (radd_t r p). split; [reflexivity|].
+    pose proof (J_new_handle s r HJ) as HJ0.
+    set (s0 := mkSt (heap_of s ++ [[]]) (tv s ++ [List.length (heap_of s)]) (sv s)) in *.
+    assert (L0 : List.length (tv s) < List.length (tv s0)) by (cbn [s0 tv]; rewrite app_length; cbn [List.length]; lia).
+    pose proof (call_refines eff_init (with_text p) (List.length (tv s)) None s0 (radd_t r []) HJ0 L0 I) as H.
+    replace (r_call eff_init (with_text p) (List.length (tv s)) None s0 (radd_t r [])) with (radd_t r p) in H.
+    + apply H; [from_checks CHK_A|from_checks CHK_F|from_checks CHK_R|exact NSo|cbn; lia].
+    + rcompute. unfold rset_t, radd_t. cbn [rt rs]. rewrite RL1, set_nth_app_last. reflexivity.
+  - (* OFromStim *)
+    destruct (nth_error (sv s) w) as [b|] eqn:E.
+    + assert (Lw : w < List.length (rs r)) by (rewrite <- RL2; apply nth_error_Some; congruence).
+      exists (r_static eff_from_stim_program no_args w s r). split.
+      * rewrite (nth_error_rs r w Lw). unfold r_static, rmethod. rcompute. reflexivity.
+      * apply static_refines; [exact HJ|exact E|from_checks CHK_A|from_checks CHK_F|from_checks CHK_R|reflexivity|cbn; lia].
+    + assert (E2 : nth_error (rs r) w = None) by (apply nth_error_None; rewrite <- RL2; apply nth_error_None; exact E).
+      exists r. rewrite E2. auto.
+  - (* OAppendText *)
+    destruct (step_J_receiver s r v HJ) as [(Lv & E & Lr)|[E1 E2]].
+    + exists (r_call eff_append_text (with_text p) v None s r). split.
+      * rewrite E. rcompute. reflexivity.
+      * apply (call_refines eff_append_text (with_text p) v None s r HJ Lv I);
+          [from_checks CHK_A|from_checks CHK_F|from_checks CHK_R|exact NSo|cbn; lia].
+    + exists r. rewrite E2, call_none by exact E1. auto.
+  - (* OAdd *)
+    destruct (step_J_receiver s r v HJ) as [(Lv & E & Lr)|[E1 E2]].
+    + destruct x as [w|w]; cbn [operand_addr rval].
+      * destruct (nth_error (tv s) w) as [b|] eqn:Eb.
+        -- assert (Lw : w < List.length (tv s)) by (apply nth_error_Some; congruence).
+           exists (r_call eff_add_t no_args v (Some (OpT w)) s r). split.
+           ++ rewrite E, (nth_error_rt r w (eq_ind _ (fun n => w < n) Lw _ RL1)). rcompute. destruct (Nat.eqb w v) eqn:Ewv; rcompute; rewrite rset_t_same by exact Lr; [|reflexivity].
+              apply Nat.eqb_eq in Ewv. subst w. reflexivity.
+           ++ pose proof (call_refines eff_add_t no_args v (Some (OpT w)) s r HJ Lv Lw) as H. cbn [operand_addr] in H. rewrite Eb in H.
+              apply H; [from_checks CHK_A| | |reflexivity|cbn; lia]; unfold operand_fo; destruct (Nat.eqb w v); [from_checks CHK_F|from_checks CHK_F|from_checks CHK_R|from_checks CHK_R].
+        -- assert (E3 : nth_error (rt r) w = None) by (apply nth_error_None; rewrite <- RL1; apply nth_error_None; exact Eb).
+           exists r. rewrite E, E3. auto.
+      * destruct (nth_error (sv s) w) as [b|] eqn:Eb.
+        -- assert (Lw : w < List.length (sv s)) by (apply nth_error_Some; congruence).
+           exists (r_call eff_add_s no_args v (Some (OpS w)) s r). split.
+           ++ rewrite E, (nth_error_rs r w (eq_ind _ (fun n => w < n) Lw _ RL2)). rcompute. rewrite rset_t_same by exact Lr. reflexivity.
+           ++ pose proof (call_refines eff_add_s no_args v (Some (OpS w)) s r HJ Lv Lw) as H. cbn [operand_addr] in H. rewrite Eb in H.
+              apply H; [from_checks CHK_A|from_checks CHK_F|from_checks CHK_R|reflexivity|cbn; lia].
+        -- assert (E3 : nth_error (rs r) w = None) by (apply nth_error_None; rewrite <- RL2; apply nth_error_None; exact Eb).
+           exists r. rewrite E, E3. auto.
+    + exists r. rewrite E2. split; [reflexivity|]. destruct (operand_addr x s); [rewrite call_none by exact E1|]; exact HJ.
+  - (* OIAdd *)
+    destruct (step_J_receiver s r v HJ) as [(Lv & E & Lr)|[E1 E2]].
+    + destruct x as [w|w]; cbn [operand_addr rval].
+      * destruct (nth_error (tv s) w) as [b|] eqn:Eb.
+        -- assert (Lw : w < List.length (tv s)) by (apply nth_error_Some; congruence).
+           exists (r_call eff_iadd_t no_args v (Some (OpT w)) s r). split.
+           ++ rewrite E, (nth_error_rt r w (eq_ind _ (fun n => w < n) Lw _ RL1)). rcompute. destruct (Nat.eqb w v) eqn:Ewv; rcompute; [|reflexivity].
+              apply Nat.eqb_eq in Ewv. subst w. reflexivity.
+           ++ pose proof (call_refines eff_iadd_t no_args v (Some (OpT w)) s r HJ Lv Lw) as H. cbn [operand_addr] in H. rewrite Eb in H.
+              apply H; [from_checks CHK_A| | |reflexivity|cbn; lia]; unfold operand_fo; destruct (Nat.eqb w v); [from_checks CHK_F|from_checks CHK_F|from_checks CHK_R|from_checks CHK_R].
+        -- assert (E3 : nth_error (rt r) w = None) by (apply nth_error_None; rewrite <- RL1; apply nth_error_None; exact Eb).
+           exists r. rewrite E, E3. auto.
+      * destruct (nth_error (sv s) w) as [b|] eqn:Eb.
+        -- assert (Lw : w < List.length (sv s)) by (apply nth_error_Some; congruence).
+           exists (r_call eff_iadd_s no_args v (Some (OpS w)) s r). split.
+           ++ rewrite E, (nth_error_rs r w (eq_ind _ (fun n => w < n) Lw _ RL2)). rcompute. reflexivity.
+           ++ pose proof (call_refines eff_iadd_s no_args v (Some (OpS w)) s r HJ Lv Lw) as H. cbn [operand_addr] in H. rewrite Eb in H.
+              apply H; [from_checks CHK_A|from_checks CHK_F|from_checks CHK_R|reflexivity|cbn; lia].
+        -- assert (E3 : nth_error (rs r) w = None) by (apply nth_error_None; rewrite <- RL2; apply nth_error_None; exact Eb).
+           exists r. rewrite E, E3. auto.
+    + exists r. rewrite E2. split; [reflexivity|]. destruct (operand_addr x s); [rewrite call_none by exact E1|]; exact HJ.
+  - (* OMul *)
+    destruct (step_J_receiver s r v HJ) as [(Lv & E & Lr)|[E1 E2]].
+    + destruct (n <? 0)%Z eqn:En; [exists r; rewrite E; auto|]. apply Z.ltb_ge in En.
+      exists (r_call eff_mul (with_n n) v None s r). split.
+      * rewrite E. rcompute. rewrite rset_t_same by exact Lr. reflexivity.
+      * apply (call_refines eff_mul (with_n n) v None s r HJ Lv I);
+          [from_checks CHK_A|from_checks CHK_F|from_checks CHK_R|reflexivity|exact En].
+    + exists r. rewrite E2. split; [reflexivity|]. destruct (n <? 0)%Z; [|rewrite call_none by exact E1]; exact HJ.
+  - (* ORMul *)
+    destruct (step_J_receiver s r v HJ) as [(Lv & E & Lr)|[E1 E2]].
+    + destruct (n <? 0)%Z eqn:En; [exists r; rewrite E; auto|]. apply Z.ltb_ge in En.
+      exists (r_call eff_rmul (with_n n) v None s r). split.
+      * rewrite E. rcompute. rewrite rset_t_same by exact Lr. reflexivity.
+      * apply (call_refines eff_rmul (with_n n) v None s r HJ Lv I);
+          [from_checks CHK_A|from_checks CHK_F|from_checks CHK_R|reflexivity|exact En].
+    + exists r. rewrite E2. split; [reflexivity|]. destruct (n <? 0)%Z; [|rewrite call_none by exact E1]; exact HJ.
+  - (* OIMul *)
+    destruct (step_J_receiver s r v HJ) as [(Lv & E & Lr)|[E1 E2]].
+    + destruct (n <? 0)%Z eqn:En; [exists r; rewrite E; auto|]. apply Z.ltb_ge in En.
+      exists (r_call eff_imul (with_n n) v None s r). split.
+      * rewrite E. rcompute. reflexivity.
+      * apply (call_refines eff_imul (with_n n) v None s r HJ Lv I);
+          [from_checks CHK_A|from_checks CHK_F|from_checks CHK_R|reflexivity|exact En].
+    + exists r. rewrite E2. split; [reflexivity|]. destruct (n <? 0)%Z; [|rewrite call_none by exact E1]; exact HJ.
+  - (* OSlice *)
+    destruct (step_J_receiver s r v HJ) as [(Lv & E & Lr)|[E1 E2]].
+    + destruct (c =? 0)%Z eqn:Ec.
+      * exists r. rewrite E. split; [|exact HJ]. exists (tval s v). split; [apply AF; exact Lv|]. split; [apply RT; exact Lv|reflexivity].
+      * exists (r_call eff_getitem_slice (with_slice a b c) v None s r). split.
+        -- rewrite E. exists (tval s v). split; [apply AF; exact Lv|]. split; [apply RT; exact Lv|].
+           rcompute. rewrite rset_t_same by exact Lr. reflexivity.
+        -- apply (call_refines eff_getitem_slice (with_slice a b c) v None s r HJ Lv I);
+             [from_checks CHK_A|from_checks CHK_F|from_checks CHK_R|reflexivity|cbn; lia].
+    + exists r. rewrite E2. split; [reflexivity|]. destruct (c =? 0)%Z; [|rewrite call_none by exact E1]; exact HJ.
+  - (* OGetItem *)
+    exists r. split; [reflexivity|]. destruct (norm_index i (tlen s v)); [|exact HJ].
+    rewrite observer_is_identity; [exact HJ|from_checks CHK_A].
+  - (* OPop *)
+    destruct (step_J_receiver s r v HJ) as [(Lv & E & Lr)|[E1 E2]].
+    + assert (TL : tlen s v = Z.of_nat (List.length (tval s v))).
+      { unfold tlen, tval. destruct (nth_error (tv s) v); reflexivity. }
+      destruct (norm_index i (tlen s v)) as [k|] eqn:Ek.
+      * exists (r_call eff_pop (with_idx i) v None s r). split.
+        -- rewrite E. exists (tval s v). split; [apply AF; exact Lv|]. split; [apply RT; exact Lv|].
+           rewrite <- TL, Ek. rcompute. unfold pop_at. rewrite <- TL, Ek. reflexivity.
+        -- apply (call_refines eff_pop (with_idx i) v None s r HJ Lv I);
+             [from_checks CHK_A|from_checks CHK_F|from_checks CHK_R|reflexivity|cbn; lia].
+      * exists r. rewrite E. split; [|exact HJ]. exists (tval s v). split; [apply AF; exact Lv|]. split; [apply RT; exact Lv|].
+        rewrite <- TL, Ek. reflexivity.
+    + exists r. rewrite E2. split; [reflexivity|]. destruct (norm_index i (tlen s v)); [rewrite call_none by exact E1|]; exact HJ.
+  - (* OCopy *)
+    destruct (step_J_receiver s r v HJ) as [(Lv & E & Lr)|[E1 E2]].
+    + exists (r_call eff_copy no_args v None s r). split.
+      * rewrite E. rcompute. rewrite rset_t_same by exact Lr. reflexivity.
+      * apply (call_refines eff_copy no_args v None s r HJ Lv I);
+          [from_checks CHK_A|from_checks CHK_F|from_checks CHK_R|reflexivity|cbn; lia].
+    + exists r. rewrite E2, call_none by exact E1. auto.
+  - (* OWithoutNoise *)
+    destruct (step_J_receiver s r v HJ) as [(Lv & E & Lr)|[E1 E2]].
+    + exists (r_call eff_without_noise no_args v None s r). split.
+      * rewrite E. rcompute. rewrite rset_t_same by exact Lr. reflexivity.
+      * apply (call_refines eff_without_noise no_args v None s r HJ Lv I);
+          [from_checks CHK_A|from_checks CHK_F|from_checks CHK_R|reflexivity|cbn; lia].
+    + exists r. rewrite E2, call_none by exact E1. auto.
+  - (* OWithoutAnnot *)
+    destruct (step_J_receiver s r v HJ) as [(Lv & E & Lr)|[E1 E2]].
+    + exists (r_call eff_without_annotations no_args v None s r). split.
+      * rewrite E. rcompute. rewrite rset_t_same by exact Lr. reflexivity.
+      * apply (call_refines eff_without_annotations no_args v None s r HJ Lv I);
+          [from_checks CHK_A|from_checks CHK_F|from_checks CHK_R|reflexivity|cbn; lia].
+    + exists r. rewrite E2, call_none by exact E1. auto.
+  - (* OStimCircuit *)
+    destruct (step_J_receiver s r v HJ) as [(Lv & E & Lr)|[E1 E2]].
+    + exists (r_call eff_stim_circuit no_args v None s r). split.
+      * rewrite E. rcompute. rewrite rset_t_same by exact Lr. reflexivity.
+      * apply (call_refines eff_stim_circuit no_args v None s r HJ Lv I);
+          [from_checks CHK_A|from_checks CHK_F|from_checks CHK_R|reflexivity|cbn; lia].
+    + exists r. rewrite E2, call_none by exact E1. auto.
+  - (* OObserve *)
+    exists r. split; [reflexivity|]. destruct (nth_error observer_effects k) as [[nm m]|] eqn:E; [|exact HJ].
+    rewrite observer_is_identity; [exact HJ|]. eapply observer_nth. exact E.
+  - (* OStimNew *)
+    exists (mkR (rt r) (rs r ++ [p])). split; [reflexivity|]. unfold halloc.
+    pose proof (Inv1_stim_new s p IV) as IV'. split; [exact IV'|]. split.
+    + unfold refines. cbn [tv sv rt rs]. rewrite !app_length. cbn [List.length]. split; [lia|]. split; [lia|]. split.
+      * intros v Lv. split; [apply (proj2 IV'); exact Lv|]. specialize (RT v Lv). unfold tval in *. cbn [tv heap_of].
+        destruct (nth_error (tv s) v) as [a0|] eqn:E; [|exact (proj2 RT)].
+        assert (a0 < List.length (heap_of s)) by (apply (proj1 W); unfold allv; apply in_or_app; left; eapply nth_error_In; exact E).
+        rewrite hread_app_l by assumption. exact (proj2 RT).
+      * intros w Lw. unfold sval. cbn [sv heap_of]. destruct (Nat.eq_dec w (List.length (sv s))) as [->|Hne].
+        -- rewrite nth_error_app2 by lia. rewrite Nat.sub_diag. cbn [nth_error]. rewrite hread_alloc.
+           rewrite app_nth2 by lia. replace (List.length (sv s) - List.length (rs r)) with 0 by lia. apply simc_refl.
+        -- assert (Lw' : w < List.length (sv s)) by lia. rewrite nth_error_app1 by exact Lw'. rewrite app_nth1 by lia.
+           specialize (RS w Lw'). unfold sval in RS. destruct (nth_error (sv s) w) as [a0|] eqn:E; [|exact RS].
+           assert (a0 < List.length (heap_of s)) by (apply (proj1 W); unfold allv; apply in_or_app; right; eapply nth_error_In; exact E).
+           rewrite hread_app_l by assumption. exact RS.
+    + split; cbn [rt rs]; [exact NS1|]. apply Forall_app. split; [exact NS2|]. constructor; [exact NSo|constructor].
+  - (* OStimIAdd *)
+    destruct (nth_error (sv s) w) as [b|] eqn:E.
+    + assert (Lw : w < List.length (sv s)) by (apply nth_error_Some; congruence).
+      assert (Lr : w < List.length (rs r)) by lia.
+      exists (mkR (rt r) (set_nth (rs r) w (nth w (rs r) [] ++ p))). split; [rewrite (nth_error_rs r w Lr); reflexivity|].
+      assert (Lb : b < List.length (heap_of s)) by (apply (proj1 W); unfold allv; apply in_or_app; right; eapply nth_error_In; exact E).
+      pose proof (t_step_Inv1 (OStimIAdd w p) s IV) as IV'. cbn [t_step] in IV'. rewrite E in IV'.
+      split; [exact IV'|]. split.
+      * unfold refines. cbn [tv sv rt rs]. rewrite set_nth_length. split; [lia|]. split; [lia|]. split.
+        -- intros v Lv. split; [apply (proj2 IV'); exact Lv|]. specialize (RT v Lv). unfold tval in *. cbn [tv heap_of].
+           destruct (nth_error (tv s) v) as [a0|] eqn:Ea; [|exact (proj2 RT)].
+           rewrite hread_hwrite_other by (intro; subst; eapply WF_tv_sv_distinct; eauto). exact (proj2 RT).
+        -- intros w0 L0. unfold sval. cbn [sv heap_of]. destruct (Nat.eq_dec w0 w) as [->|Hne].
+           ++ rewrite E. rewrite hread_hwrite_same by exact Lb. rewrite nth_set_nth_same by exact Lr.
+              eapply simc_trans; [apply stim_iadd_simc|]. apply simc_app; [|apply simc_refl].
+              specialize (RS w Lw). unfold sval in RS. rewrite E in RS. exact RS.
+           ++ rewrite nth_set_nth_other by exact Hne. specialize (RS w0 L0). unfold sval in RS.
+              destruct (nth_error (sv s) w0) as [a0|] eqn:Ea; [|exact RS].
+              rewrite hread_hwrite_other by (eapply WF_sv_distinct; eauto). exact RS.
+      * split; cbn [rt rs]; [exact NS1|]. apply Forall_set_nth; [exact NS2|].
+        rewrite noshift_app, NSo, andb_true_r. apply Forall_nth_default; [exact NS2|reflexivity].
+    + assert (E2 : nth_error (rs r) w = None) by (apply nth_error_None; rewrite <- RL2; apply nth_error_None; exact E).
+      exists r. rewrite E2. auto.
+Qed.
+
+(* ---- the theorems ------------------------------------------------------------------------------------ *)
+Lemma J_0 : J st0 rst0.
+Proof.
+  split; [exact Inv1_st0|]. split.
+  - unfold refines. cbn. repeat split; intros; lia.
+  - split; constructor.
+Qed.
+
+Lemma run_J : forall h s r, J s r -> forallb noshift_op h = true ->
+  exists r', ref_run h r r' /\ J (fold_left (fun s o => t_step o s) h s) r'.
+Proof.
+  induction h as [|o h IH]; intros s r HJ NSh.
+  - exists r. split; [constructor|exact HJ].
+  - cbn [forallb] in NSh. apply andb_true_iff in NSh as [N1 N2].
+    destruct (step_J o s r HJ N1) as (r1 & S1 & J1).
+    destruct (IH _ _ J1 N2) as (r2 & S2 & J2).
+    exists r2. split; [econstructor; eassumption|exact J2].
+Qed.
+
+Theorem refine_partial : forall h, forallb noshift_op h = true ->
+  exists r, ref_run h rst0 r /\ refines (t_run h) r.
+Proof.
+  intros h NSh. destruct (run_J h st0 rst0 J_0 NSh) as (r & R1 & (_ & R2 & _)). exists r. split; assumption.
+Qed.
+
+Theorem refines_counts : forall s r, refines s r ->
+  forall v, v < List.length (tv s) -> counts_c (tval s v) = counts_c (nth v (rt r) []).
+Proof. intros s r (_ & _ & RT & _) v Lv. apply counts_simc. apply RT. exact Lv. Qed.
+
+Theorem flat_always : forall h v, v < List.length (tv (t_run h)) -> is_flat (tval (t_run h) v) = true.
+Proof. intros h v Lv. apply (proj2 (t_run_Inv1 h)). exact Lv. Qed.
+
+Theorem alias_never : forall h,
+  NoDup (tv (t_run h) ++ sv (t_run h)) /\
+  forall a, In a (tv (t_run h) ++ sv (t_run h)) -> a < List.length (heap_of (t_run h)).
+Proof. intro h. destruct (t_run_Inv1 h) as [[W1 W2] _]. split; assumption. Qed.
+
+Theorem observers_identity : forall s k v, t_step (OObserve k v) s = s.
+Proof.
+  intros s k v. cbn [t_step]. destruct (nth_error observer_effects k) as [[nm m]|] eqn:E; [|reflexivity].
+  apply observer_is_identity. eapply observer_nth. exact E.
+Qed.
+
+Theorem getitem_identity : forall s v i, t_step (OGetItem v i) s = s.
+Proof.
+  intros s v i. cbn [t_step]. destruct (norm_index i (tlen s v)); [|reflexivity].
+  apply observer_is_identity. from_checks checks_alias_true.
+Qed.
+
+(* the full statement fails: flattening on entry forgets SHIFT_COORDS *)
+Definition shift_witness : list op :=
+  [OText [It (mkI "SHIFT_COORDS" [1024%Z] 0%Z []); It (mkI "M" [] 0%Z [[0%Z]])];
+   OAppendText 0 [It (mkI "DETECTOR" [0%Z] 0%Z [[(-2)%Z]])]].
+
+Theorem refine_refuted : exists h, forall r, ref_run h rst0 r -> ~ refines (t_run h) r.
+Proof.
+  exists shift_witness. intros r Hrun (L1 & L2 & RT & RS).
+  unfold shift_witness in Hrun.
+  inversion Hrun as [|o h0 r0 r1 r2 S1 Hrun1]; subst. cbn [ref_step] in S1. subst r1.
+  inversion Hrun1 as [|o h0 r0 r1 r2 S2 Hrun2]; subst. cbn in S2. subst r1.
+  inversion Hrun2; subst.
+  assert (Lv : 0 < List.length (tv (t_run shift_witness))) by (vm_compute; lia).
+  destruct (RT 0 Lv) as [_ Hs]. vm_compute in Hs. discriminate Hs.
+Qed.
+
+(* the same in terms of Stim's own flattened(): canonical form of the wrapped circuit = flattened reference *)
+Theorem refine_partial_flattened : forall h, forallb noshift_op h = true ->
+  exists r, ref_run h rst0 r /\ refines (t_run h) r /\
+    forall v, v < List.length (tv (t_run h)) -> fuse (flatten0 (tval (t_run h) v)) = flattened_l (nth v (rt r) []).
+Proof.
+  intros h NSh. destruct (run_J h st0 rst0 J_0 NSh) as (r & R1 & (_ & R2 & [N1 _])). exists r.
+  split; [exact R1|]. split; [exact R2|]. intros v Lv. destruct R2 as (_ & _ & RT & _).
+  rewrite flattened_l_noshift by (apply Forall_nth_default; [exact N1|reflexivity]). apply RT. exact Lv.
+Qed.
+
+Definition example_history : list op :=
+  [OText [It (mkI "H" [] 0%Z [[0%Z]]); Rep 2 [It (mkI "X" [] 0%Z [[0%Z]]); It (mkI "M" [] 0%Z [[0%Z]])]];
+   OStimNew [Rep 3 [It (mkI "H" [] 0%Z [[16%Z]])]; It (mkI "DETECTOR" [1024%Z] 0%Z [[(-2)%Z]])];
+   OIAdd 0 (OpS 0); OMul 0 2%Z; OPop 1 (-1)%Z; OSlice 1 (Some 1%Z) None 2%Z; OIAdd 0 (OpT 0); OWithoutAnnot 0].
+Lemma example_history_ok :
+  forallb noshift_op example_history = true /\ List.length (tv (t_run example_history)) = 4 /\
+  List.length (flatten0 (tval (t_run example_history) 0)) = 14.
+Proof. vm_compute. auto. Qed.
